@@ -3,7 +3,10 @@
    evaluator: whenever the evaluator yields a value and a scope, the machine started on the
    compiled code with a related flowing value on its stack and related locals reaches the end of
    that code with the related value on the stack (everything below it untouched) and locals
-   related to the new scope. *)
+   related to the new scope.  Blocks: the input is stored in a fresh slot, every branch starts
+   from it, the slots a branch bound and the block's own slot are released (Reset) — the locals
+   after a block are the locals before it.  IEqual takes its verdict from outside in the VM model:
+   the run exhibited here supplies the verdict of the evaluator's own equality (`lit_verdict`). *)
 From Coq Require Import ZArith List Bool Lia.
 From Quiver Require Import lang.Lang lang.LangProofs lang.LangCompile lang.LangSimplify lang.LangSimplifyProofs.
 From Quiver Require vm.Vm.
@@ -22,6 +25,7 @@ Notation p_funcs := Quiver.vm.Bytecode.p_funcs.
 Notation p_tuples := Quiver.vm.Bytecode.p_tuples.
 Notation CInt := Quiver.vm.Bytecode.CInt.
 Notation mk_func := Quiver.vm.Bytecode.Build_func.
+Notation MFun := Quiver.vm.Bytecode.VFun.
 Notation state := Quiver.vm.Vm.state.
 Notation mk_state := Quiver.vm.Vm.Build_state.
 Notation mk_frame := Quiver.vm.Vm.Build_frame.
@@ -61,6 +65,13 @@ Section Sim.
   Hypothesis Hpool : forall z k, const_index pool z = Some k -> nth_error (p_consts P) k = Some (CInt z).
   Hypothesis Hshapes : forall sh t, shape_index shapes sh = Some t -> nth_error (p_tuples P) t = Some (length (snd sh)).
   Hypothesis Hshapes0 : exists r, shapes = nil_shape :: ok_shape :: r.
+  (* functions: which names are function variables, and where the function compiled from a body
+     sits in the program's function table (no captures) *)
+  Variable isfun : atom -> bool.
+  Variable fnum : expression -> option nat.
+  Hypothesis Hfuns : forall body k, fnum body = Some k ->
+    exists code, function_code pool shapes isfun fnum body = Some code /\
+                 nth_error (p_funcs P) k = Some (mk_func code 0).
   Variable base : nat.
   Variable rest : list Quiver.vm.Vm.frame.
   Variable pers : bool.
@@ -121,6 +132,21 @@ Section Sim.
   Lemma step_rot2 : forall pc a b stk ls, nth_error C pc = Some (IRotate 2) ->
     step P (st pc (a :: b :: stk) ls) x0 = Next (st (S pc) (b :: a :: stk) ls).
   Proof. intros pc a b stk ls H. stepper H. reflexivity. Qed.
+  Lemma step_reset : forall pc idx stk ls, nth_error C pc = Some (IReset idx) -> (base + idx <= length ls)%nat ->
+    step P (st pc stk ls) x0 = Next (st (S pc) stk (firstn (base + idx) ls)).
+  Proof.
+    intros pc idx stk ls H Hl. stepper H. cbn [Quiver.vm.Vm.locals Quiver.vm.Vm.fr_base].
+    destruct (length ls <? base + idx)%nat eqn:Hb; [apply Nat.ltb_lt in Hb; lia | reflexivity].
+  Qed.
+  (* Equal: the verdict is an outside input of the VM model; here it is supplied as `verdict` *)
+  Lemma step_equal2 : forall pc a b stk ls verdict, nth_error C pc = Some (IEqual 2) ->
+    step P (st pc (a :: b :: stk) ls) (Quiver.vm.Vm.Build_ext None verdict) =
+    Next (st (S pc) ((if verdict then mok else mnil) :: stk) ls).
+  Proof. intros pc a b stk ls verdict H. stepper H. reflexivity. Qed.
+  Lemma step_function : forall pc k code stk ls, nth_error C pc = Some (IFunction k) ->
+    nth_error (p_funcs P) k = Some (mk_func code 0) ->
+    step P (st pc stk ls) x0 = Next (st (S pc) (MFun k [] :: stk) ls).
+  Proof. intros pc k code stk ls H Hk. stepper H. rewrite Hk. reflexivity. Qed.
   Lemma step_jump : forall pc off stk ls, nth_error C pc = Some (IJump off) ->
     (0 <= Z.of_nat pc + off + 1 <= Z.of_nat (length C)) ->
     step P (st pc stk ls) x0 = Next (st (Z.to_nat (Z.of_nat pc + off + 1)) stk ls).
@@ -181,13 +207,24 @@ Section Sim.
   Proof. intros v mv H. inversion H; reflexivity. Qed.
 
   (* locals of the frame (from its base) against the scope: one slot per binding, oldest first *)
+  (* a function variable holds a non-nilary closure; the machine holds the function compiled from
+     its body, without captures *)
+  Definition funrel (v : value) (mv : mvalue) : Prop :=
+    exists body cenv te k, v = VClos false (Some body) cenv te /\ mv = MFun k [] /\ fnum body = Some k.
+
   Inductive erel : scope -> env -> list mvalue -> Prop :=
-  | erel_param : forall mv, erel [None] [] [mv]
+  | erel_nil : forall e0, erel [] e0 []     (* function entry: the captured scope e0 is not addressable *)
   | erel_push : forall sc e ls x v mv,
-      erel sc e ls -> vrel v mv -> x <> a_star -> erel (sc ++ [Some x]) ((x, v) :: e) (ls ++ [mv]).
+      erel sc e ls -> vrel v mv -> x <> a_star -> isfun x = false -> erel (sc ++ [Some x]) ((x, v) :: e) (ls ++ [mv])
+  | erel_pushf : forall sc e ls f v mv,
+      erel sc e ls -> funrel v mv -> f <> a_star -> isfun f = true -> erel (sc ++ [Some f]) ((f, v) :: e) (ls ++ [mv])
+  | erel_anon : forall sc e ls mv,            (* the slot holding a block's input *)
+      erel sc e ls -> erel (sc ++ [None]) e (ls ++ [mv]).
 
   Lemma erel_length : forall sc e ls, erel sc e ls -> length ls = length sc.
-  Proof. induction 1; [reflexivity|]. rewrite !app_length. cbn. lia. Qed.
+  Proof. induction 1; [reflexivity| | |]; rewrite !app_length; cbn; lia. Qed.
+  Lemma erel_param : forall e0 mv, erel [None] e0 [mv].
+  Proof. intros e0 mv. exact (erel_anon [] e0 [] mv (erel_nil e0)). Qed.
 
   Lemma scope_lookup_from_app : forall sc i x y,
     scope_lookup_from i (sc ++ [Some y]) x =
@@ -198,24 +235,44 @@ Section Sim.
     - rewrite IH. destruct (x =? y); [f_equal; lia | reflexivity].
   Qed.
 
-  Lemma erel_no_star : forall sc e ls, erel sc e ls -> lookup a_star e = None.
+  Lemma scope_lookup_from_app_none : forall sc i x,
+    scope_lookup_from i (sc ++ [None]) x = scope_lookup_from i sc x.
   Proof.
-    induction 1; [reflexivity|]. cbn [lookup]. destruct (a_star =? x) eqn:Hx; [apply Z.eqb_eq in Hx; congruence | assumption].
+    induction sc as [|s r IH]; intros i x; cbn [app scope_lookup_from]; [reflexivity|]. rewrite IH. reflexivity.
   Qed.
 
-  Lemma erel_lookup : forall sc e ls, erel sc e ls -> forall x v,
-    lookup_var x e = Some v ->
-    exists i mv, scope_lookup sc x = Some i /\ nth_error ls i = Some mv /\ vrel v mv.
+  Lemma lookup_var_push_other : forall x y (w : value) e, (x =? y) = false -> y <> a_star ->
+    lookup_var x ((y, w) :: e) = lookup_var x e.
   Proof.
-    intros sc e ls H x v Hl. unfold lookup_var in Hl. rewrite (erel_no_star _ _ _ H) in Hl.
-    destruct (lookup x e) as [v0|] eqn:Hx; [|discriminate]. inversion Hl; subst v0. clear Hl.
-    induction H as [mv|sc e ls y w mv H IH Hv Hy]; [discriminate|].
-    unfold scope_lookup. rewrite scope_lookup_from_app. cbn [lookup] in Hx.
-    destruct (x =? y).
-    - inversion Hx; subst w. exists (length sc), mv. repeat split; [|assumption].
-      rewrite <- (erel_length _ _ _ H). rewrite nth_error_app2 by lia. rewrite Nat.sub_diag. reflexivity.
-    - destruct (IH Hx) as (i & mv0 & Hi & Hn & Hr). exists i, mv0. repeat split; try assumption.
-      rewrite nth_error_app1; [assumption|]. apply nth_error_Some. congruence.
+    intros x y w e Hxy Hy. unfold lookup_var. cbn [lookup]. rewrite Hxy.
+    destruct (a_star =? y) eqn:Hs; [apply Z.eqb_eq in Hs; congruence | reflexivity].
+  Qed.
+  Lemma lookup_var_push_same : forall x y (w : value) e, (x =? y) = true -> lookup_var x ((y, w) :: e) = Some w.
+  Proof. intros x y w e Hxy. unfold lookup_var. cbn [lookup]. rewrite Hxy. reflexivity. Qed.
+
+  (* a name the compiler resolves to slot i is, at run time, the newest binding of that name, and
+     slot i holds the related machine value *)
+  Lemma erel_lookup_gen : forall sc e ls, erel sc e ls -> forall x i v,
+    scope_lookup sc x = Some i -> lookup_var x e = Some v ->
+    exists mv, nth_error ls i = Some mv /\ (if isfun x then funrel v mv else vrel v mv).
+  Proof.
+    intros sc e ls H. induction H as [e0|sc e ls y w mv H IH Hv Hy Hf|sc e ls y w mv H IH Hv Hy Hf|sc e ls mv H IH];
+      intros x i v Hi Hl.
+    - discriminate.
+    - unfold scope_lookup in Hi. rewrite scope_lookup_from_app in Hi. destruct (x =? y) eqn:Hxy.
+      + rewrite (lookup_var_push_same _ _ _ _ Hxy) in Hl. inversion Hl; subst w. inversion Hi; subst i.
+        apply Z.eqb_eq in Hxy. subst y. rewrite Hf. exists mv. split; [|assumption].
+        rewrite <- (erel_length _ _ _ H). cbn. rewrite nth_error_app2 by lia. rewrite Nat.sub_diag. reflexivity.
+      + rewrite (lookup_var_push_other _ _ _ _ Hxy Hy) in Hl. destruct (IH x i v Hi Hl) as (mv0 & Hn & Hr).
+        exists mv0. split; [|assumption]. rewrite nth_error_app1; [assumption|]. apply nth_error_Some. congruence.
+    - unfold scope_lookup in Hi. rewrite scope_lookup_from_app in Hi. destruct (x =? y) eqn:Hxy.
+      + rewrite (lookup_var_push_same _ _ _ _ Hxy) in Hl. inversion Hl; subst w. inversion Hi; subst i.
+        apply Z.eqb_eq in Hxy. subst y. rewrite Hf. exists mv. split; [|assumption].
+        rewrite <- (erel_length _ _ _ H). cbn. rewrite nth_error_app2 by lia. rewrite Nat.sub_diag. reflexivity.
+      + rewrite (lookup_var_push_other _ _ _ _ Hxy Hy) in Hl. destruct (IH x i v Hi Hl) as (mv0 & Hn & Hr).
+        exists mv0. split; [|assumption]. rewrite nth_error_app1; [assumption|]. apply nth_error_Some. congruence.
+    - unfold scope_lookup in Hi. rewrite scope_lookup_from_app_none in Hi. destruct (IH x i v Hi Hl) as (mv0 & Hn & Hr).
+      exists mv0. split; [|assumption]. rewrite nth_error_app1; [assumption|]. apply nth_error_Some. congruence.
   Qed.
 
   (* ---------------------------------------------------------------------------------------
@@ -276,7 +333,7 @@ Section Sim.
     | TupleField l (FChain c) :: r =>
         if (match l with Some _ => existsb (oatom_eqb l) labels | None => false end) then None
         else
-        match compile_chain pool shapes sc c with
+        match compile_chain pool shapes isfun fnum sc c with
         | Some (cc, sc1) =>
             match fields_go r (S i) sc1 (labels ++ [l]) with
             | Some (cr, sc2, ls) => Some (IPick i :: cc ++ cr, sc2, ls)
@@ -290,7 +347,7 @@ Section Sim.
     match ts with
     | [] => Some ([], sc)
     | t :: r =>
-        match compile_term pool shapes sc t with
+        match compile_term pool shapes isfun fnum sc t with
         | Some (ct, sc1) =>
             match terms_go r sc1 with
             | Some (cr, sc2) => Some (ct ++ cr, sc2)
@@ -300,7 +357,7 @@ Section Sim.
         end
     end.
   Lemma compile_term_tuple : forall sc name fs,
-    compile_term pool shapes sc (Tuple name fs) =
+    compile_term pool shapes isfun fnum sc (Tuple name fs) =
     match name with
     | Inherit => None
     | _ => match fields_go fs O sc [] with
@@ -313,24 +370,257 @@ Section Sim.
            end
     end.
   Proof. reflexivity. Qed.
-  Lemma compile_chain_eq : forall sc mp ts,
-    compile_chain pool shapes sc (Chain mp ts) =
-    match terms_go ts sc with
-    | Some (ct, sc1) =>
-        match mp with
-        | None => Some (ct, sc1)
-        | Some (MIdentifier x) => if x =? a_star then None else Some (ct ++ binder_code, sc1 ++ [Some x])
-        | Some _ => None
+  Fixpoint seq_go (cs : list chain) (sc : scope) {struct cs} : option (list instr * scope) :=
+    match cs with
+    | [] => None
+    | c :: r =>
+        match r with
+        | [] => compile_chain pool shapes isfun fnum sc c
+        | _ :: _ =>
+            if ends_in_nil_literal c then None else
+            match compile_chain pool shapes isfun fnum sc c with
+            | Some (cc, sc1) =>
+                match seq_go r sc1 with
+                | Some (cr, sc2) => Some (cc ++ [IDuplicate; INot; IJumpIf (Z.of_nat (length cr))] ++ cr, sc2)
+                | None => None
+                end
+            | None => None
+            end
+        end
+    end.
+  Section BrGo.
+  Variable b : nat.
+  Variable scb : scope.
+  Fixpoint br_go (bs : list branch) {struct bs} : option (list instr) :=
+    match bs with
+    | [] => None
+    | Branch (Sequence cs) k :: r =>
+        match seq_go cs scb with
+        | None => None
+        | Some (cc, sc1) =>
+            let bound := Nat.ltb (S b) (length sc1) in
+            match k with
+            | None =>
+                let body := cc ++ (if bound then [IReset (S b)] else []) in
+                match r with
+                | [] => Some body
+                | _ :: _ =>
+                    match br_go r with
+                    | Some cr => Some (body ++ [IDuplicate; IJumpIf (Z.of_nat (2 + length cr)); IPop; ILoad b] ++ cr)
+                    | None => None
+                    end
+                end
+            | Some (Sequence ks) =>
+                if bound then None else
+                match seq_go ks scb with
+                | None => None
+                | Some (ck, sc2) =>
+                    let kb := ck ++ (if Nat.ltb (S b) (length sc2) then [IReset (S b)] else []) in
+                    match r with
+                    | [] => Some (cc ++ [IDuplicate; INot; IJumpIf (Z.of_nat (2 + length kb)); IPop; ILoad b] ++ kb)
+                    | _ :: _ =>
+                        match br_go r with
+                        | Some cr =>
+                            Some (cc ++ [IDuplicate; INot; IJumpIf (Z.of_nat (3 + length kb)); IPop; ILoad b] ++ kb
+                                     ++ [IJump (Z.of_nat (2 + length cr)); IPop; ILoad b] ++ cr)
+                        | None => None
+                        end
+                    end
+                end
+            end
+        end
+    end.
+  End BrGo.
+  Lemma compile_term_block : forall sc bs,
+    compile_term pool shapes isfun fnum sc (Block (Expression bs)) =
+    match br_go (length sc) (sc ++ [None]) bs with
+    | Some cb => Some (IStore :: ILoad (length sc) :: cb ++ [IReset (length sc)], sc)
+    | None => None
+    end.
+  Proof. reflexivity. Qed.
+  Lemma compile_seq_cons2 : forall sc c1 c2 r,
+    compile_seq pool shapes isfun fnum sc (c1 :: c2 :: r) =
+    if ends_in_nil_literal c1 then None else
+    match compile_chain pool shapes isfun fnum sc c1 with
+    | Some (cc, sc1) =>
+        match compile_seq pool shapes isfun fnum sc1 (c2 :: r) with
+        | Some (cr, sc2) => Some (cc ++ [IDuplicate; INot; IJumpIf (Z.of_nat (length cr))] ++ cr, sc2)
+        | None => None
         end
     | None => None
     end.
   Proof. reflexivity. Qed.
+
+  Lemma seq_go_cons2 : forall sc c1 c2 r,
+    seq_go (c1 :: c2 :: r) sc =
+    if ends_in_nil_literal c1 then None else
+    match compile_chain pool shapes isfun fnum sc c1 with
+    | Some (cc, sc1) =>
+        match seq_go (c2 :: r) sc1 with
+        | Some (cr, sc2) => Some (cc ++ [IDuplicate; INot; IJumpIf (Z.of_nat (length cr))] ++ cr, sc2)
+        | None => None
+        end
+    | None => None
+    end.
+  Proof. reflexivity. Qed.
+  Lemma seq_with_cons2 : forall ev c1 c2 r e v,
+    seq_with ev (c1 :: c2 :: r) e v =
+    (do x <- ev c1 e v ;; if is_nil (fst x) then Ret (vnil, snd x) ev_short else seq_with ev (c2 :: r) (snd x) (fst x)).
+  Proof. reflexivity. Qed.
+  Lemma seq_go_eq : forall cs sc, seq_go cs sc = compile_seq pool shapes isfun fnum sc cs.
+  Proof.
+    induction cs as [|c r IH]; intros sc; [reflexivity|]. destruct r as [|c2 r']; [reflexivity|].
+    rewrite seq_go_cons2, compile_seq_cons2. destruct (ends_in_nil_literal c); [reflexivity|].
+    destruct (compile_chain pool shapes isfun fnum sc c) as [[cc sc1]|]; [|reflexivity]. rewrite IH. reflexivity.
+  Qed.
+
+  (* is the chain the binding of a function literal, `f = #T { body }`? *)
+  Definition fun_binding (c : chain) : option (atom * ty * expression) :=
+    match c with
+    | Chain (Some (MIdentifier f)) [Function _ (Some pt) _ (Some body)] => Some (f, pt, body)
+    | _ => None
+    end.
+  Lemma compile_chain_fun : forall sc c f pt body, fun_binding c = Some (f, pt, body) ->
+    compile_chain pool shapes isfun fnum sc c =
+    if isfun f && negb (f =? a_star) && negb (nil_param pt) then
+      match fnum body with
+      | Some k => Some ([IPop; IFunction k] ++ binder_code, sc ++ [Some f])
+      | None => None
+      end
+    else None.
+  Proof.
+    intros sc [mp ts] f pt body H. unfold fun_binding in H.
+    destruct mp as [[x|l| | | | | | | | |]|]; try discriminate.
+    destruct ts as [|t [|t2 ts']]; try discriminate; destruct t; try discriminate;
+      destruct parameter_type; try discriminate; destruct body0; try discriminate; inversion H; subst; reflexivity.
+  Qed.
+  Lemma compile_chain_eq : forall sc mp ts, fun_binding (Chain mp ts) = None ->
+    compile_chain pool shapes isfun fnum sc (Chain mp ts) =
+    match terms_go ts sc with
+    | Some (ct, sc1) =>
+        match mp with
+        | None => Some (ct, sc1)
+        | Some (MIdentifier x) => if (x =? a_star) || isfun x then None else Some (ct ++ binder_code, sc1 ++ [Some x])
+        | Some _ => None
+        end
+    | None => None
+    end.
+  Proof.
+    intros sc mp ts H. unfold fun_binding in H.
+    destruct mp as [[x|l| | | | | | | | |]|]; try reflexivity.
+    destruct ts as [|t [|t2 ts']]; try reflexivity; destruct t; try reflexivity;
+      destruct parameter_type; try reflexivity; destruct body; try reflexivity; discriminate.
+  Qed.
+
+  (* ---------------------------------------------------------------------------------------
+     scopes only grow during compilation *)
+  Lemma fields_go_extends : forall fs,
+    Forall (fun f => match f with
+                     | TupleField _ (FChain ch) => forall sc c sc', compile_chain pool shapes isfun fnum sc ch = Some (c, sc') -> exists s, sc' = sc ++ s
+                     | _ => True
+                     end) fs ->
+    forall i sc labels c sc' labels', fields_go fs i sc labels = Some (c, sc', labels') -> exists s, sc' = sc ++ s.
+  Proof.
+    intros fs H. induction H as [|[l [chn|x]] r Hf _ IH]; intros i sc labels c sc' labels' Hg; cbn [fields_go] in Hg.
+    - inversion Hg. exists []. rewrite app_nil_r. reflexivity.
+    - destruct (match l with Some _ => existsb (oatom_eqb l) labels | None => false end); [discriminate|].
+      destruct (compile_chain pool shapes isfun fnum sc chn) as [[cc sc1]|] eqn:Hc; [|discriminate].
+      destruct (fields_go r (S i) sc1 (labels ++ [l])) as [[[cr sc2] ls2]|] eqn:Hr; [|discriminate].
+      inversion Hg; subst. destruct (Hf _ _ _ Hc) as [s1 ->]. destruct (IH _ _ _ _ _ _ Hr) as [s2 ->].
+      exists (s1 ++ s2). rewrite app_assoc. reflexivity.
+    - discriminate.
+  Qed.
+  Lemma terms_go_extends : forall ts,
+    Forall (fun t => forall sc c sc', compile_term pool shapes isfun fnum sc t = Some (c, sc') -> exists s, sc' = sc ++ s) ts ->
+    forall sc c sc', terms_go ts sc = Some (c, sc') -> exists s, sc' = sc ++ s.
+  Proof.
+    intros ts H. induction H as [|t r Ht _ IH]; intros sc c sc' Hg; cbn [terms_go] in Hg.
+    - inversion Hg. exists []. rewrite app_nil_r. reflexivity.
+    - destruct (compile_term pool shapes isfun fnum sc t) as [[ct sc1]|] eqn:Hc; [|discriminate].
+      destruct (terms_go r sc1) as [[cr sc2]|] eqn:Hr; [|discriminate]. inversion Hg; subst.
+      destruct (Ht _ _ _ Hc) as [s1 ->]. destruct (IH _ _ _ Hr) as [s2 ->]. exists (s1 ++ s2). rewrite app_assoc. reflexivity.
+  Qed.
+  Lemma compile_extends :
+    (forall t sc c sc', compile_term pool shapes isfun fnum sc t = Some (c, sc') -> exists s, sc' = sc ++ s) /\
+    (forall ch sc c sc', compile_chain pool shapes isfun fnum sc ch = Some (c, sc') -> exists s, sc' = sc ++ s).
+  Proof.
+    assert (H : (forall t sc c sc', compile_term pool shapes isfun fnum sc t = Some (c, sc') -> exists s, sc' = sc ++ s) /\
+                (forall ch sc c sc', compile_chain pool shapes isfun fnum sc ch = Some (c, sc') -> exists s, sc' = sc ++ s) /\
+                (forall s : sequence, True) /\ (forall b : expression, True)).
+    { apply (ast_mutind
+        (fun t => forall sc c sc', compile_term pool shapes isfun fnum sc t = Some (c, sc') -> exists s, sc' = sc ++ s)
+        (fun f => match f with
+                  | TupleField _ (FChain ch) => forall sc c sc', compile_chain pool shapes isfun fnum sc ch = Some (c, sc') -> exists s, sc' = sc ++ s
+                  | _ => True
+                  end)
+        (fun _ => True)
+        (fun ch => forall sc c sc', compile_chain pool shapes isfun fnum sc ch = Some (c, sc') -> exists s, sc' = sc ++ s)
+        (fun _ => True) (fun _ => True) (fun _ => True)); try (intros; exact I); try (intros; discriminate).
+      - intros [z|bs] sc c sc' Hc; [|discriminate]. cbn [compile_term] in Hc.
+        destruct (const_index pool z); [|discriminate]. inversion Hc. exists []. rewrite app_nil_r. reflexivity.
+      - intros name fs Hfs sc c sc' Hc. rewrite compile_term_tuple in Hc.
+        destruct name as [|a|]; [| |discriminate];
+          (destruct (fields_go fs 0 sc []) as [[[cfs sc1] labels]|] eqn:Hg; [|discriminate];
+           match type of Hc with context [shape_index shapes ?sh] => destruct (shape_index shapes sh) end; [|discriminate];
+           inversion Hc; subst; eapply fields_go_extends; eassumption).
+      - intros p sc c sc' Hc. destruct p as [x|l| | | | | | | | |]; try discriminate; cbn [compile_term] in Hc.
+        + destruct ((x =? a_star) || isfun x); [discriminate|]. inversion Hc. eauto.
+        + destruct l as [z|]; [|discriminate]. destruct (const_index pool z); [|discriminate]. inversion Hc.
+          exists []. rewrite app_nil_r. reflexivity.
+      - intros [bs] _ sc c sc' Hc. rewrite compile_term_block in Hc.
+        destruct (br_go (length sc) (sc ++ [None]) bs); [|discriminate]. inversion Hc. exists []. rewrite app_nil_r. reflexivity.
+      - intros [src path] sc c sc' Hc. cbn [compile_term] in Hc.
+        destruct src as [[y| | |p| |b|[y|]|]|]; try discriminate.
+        + destruct (isfun y).
+          { destruct (scope_lookup sc y); [|discriminate]. destruct path; [|discriminate]. inversion Hc. exists []. rewrite app_nil_r. reflexivity. }
+          destruct (scope_lookup sc y); [|discriminate]. destruct (gets path); [|discriminate]. inversion Hc. exists []. rewrite app_nil_r. reflexivity.
+        + destruct (gets path); [|discriminate]. inversion Hc. exists []. rewrite app_nil_r. reflexivity.
+        + destruct (gets path); [|discriminate]. inversion Hc. exists []. rewrite app_nil_r. reflexivity.
+      - intros n chn H. exact H.
+      - intros mp ts Hts sc c sc' Hc. destruct (fun_binding (Chain mp ts)) as [[[f pt] body]|] eqn:Hfb.
+        { rewrite (compile_chain_fun _ _ _ _ _ Hfb) in Hc. destruct (isfun f && negb (f =? a_star) && negb (nil_param pt)); [|discriminate].
+          destruct (fnum body); [|discriminate]. inversion Hc. eauto. }
+        rewrite (compile_chain_eq _ _ _ Hfb) in Hc.
+        destruct (terms_go ts sc) as [[ct sc1]|] eqn:Hg; [|discriminate].
+        destruct (terms_go_extends ts Hts _ _ _ Hg) as [s1 ->].
+        destruct mp as [p|]; [|inversion Hc; eauto]. destruct p; try discriminate.
+        destruct ((x =? a_star) || isfun x); [discriminate|]. inversion Hc. exists (s1 ++ [Some x]). rewrite app_assoc. reflexivity. }
+    tauto.
+  Qed.
+  Lemma seq_go_extends : forall cs sc c sc', seq_go cs sc = Some (c, sc') -> exists s, sc' = sc ++ s.
+  Proof.
+    destruct compile_extends as [_ Hch].
+    induction cs as [|chn r IH]; intros sc c sc' Hg; [discriminate|]. destruct r as [|c2 r'].
+    - exact (Hch _ _ _ _ Hg).
+    - rewrite seq_go_cons2 in Hg. destruct (ends_in_nil_literal chn); [discriminate|].
+      destruct (compile_chain pool shapes isfun fnum sc chn) as [[cc sc1]|] eqn:Hc; [|discriminate].
+      destruct (seq_go (c2 :: r') sc1) as [[cr sc2]|] eqn:Hr; [|discriminate]. inversion Hg; subst.
+      destruct (Hch _ _ _ _ Hc) as [s1 ->]. destruct (IH _ _ _ Hr) as [s2 ->]. exists (s1 ++ s2). rewrite app_assoc. reflexivity.
+  Qed.
 
   (* ---------------------------------------------------------------------------------------
      the simulation *)
   Variable tf : nat.
   Variable cf : value -> value -> stats -> res value.
   Variable imf : list atom -> res value.
+  (* calling a function value: whenever `cf` (the evaluator's call at the current fuel) returns a
+     value, the machine — the function compiled from the closure's body on top of the argument,
+     at a Call instruction of this frame — comes back to the next instruction with the related
+     result in place of both, locals unchanged.  (Discharged for `call mods n` by induction on n:
+     `call_simulates` below.) *)
+  Hypothesis Hcf : forall body cenv te k a acc r w ma pc stk locs,
+    fnum body = Some k -> cf (VClos false (Some body) cenv te) a acc = Ret r w -> vrel a ma ->
+    nth_error C pc = Some ICall ->
+    exists mr, star (st pc (MFun k [] :: ma :: stk) locs) (st (S pc) (mr :: stk) locs) /\ vrel r mr.
+
+  (* locals only grow while a term / chain / sequence runs *)
+  Definition grows (ls ls' : list mvalue) : Prop := exists extra, ls' = ls ++ extra.
+  Lemma grows_refl : forall ls, grows ls ls.
+  Proof. intros ls. exists []. rewrite app_nil_r. reflexivity. Qed.
+  Lemma grows_trans : forall a b c, grows a b -> grows b c -> grows a c.
+  Proof. intros a b c [x ->] [y ->]. exists (x ++ y). rewrite app_assoc. reflexivity. Qed.
+  Lemma grows_snoc : forall a b m, grows a b -> grows a (b ++ [m]).
+  Proof. intros a b m [x ->]. exists (x ++ [m]). rewrite app_assoc. reflexivity. Qed.
 
   (* `ev` (a judgement of the evaluator) is simulated by the code `c`, which turns scope sc into sc' *)
   Definition SIM (ev : env -> value -> res (value * env)) (c : list instr) (sc sc' : scope) : Prop :=
@@ -338,7 +628,26 @@ Section Sim.
       ev e v = Ret (v', e') w -> code_at C pc c -> erel sc e ls -> vrel v mv -> length L = base ->
       exists mv' ls',
         star (st pc (mv :: stk) (L ++ ls)) (st (pc + length c) (mv' :: stk) (L ++ ls')) /\
-        vrel v' mv' /\ erel sc' e' ls'.
+        vrel v' mv' /\ erel sc' e' ls' /\ grows ls ls'.
+
+  (* sequences: after a short-circuit the later binders do not exist: the final scope is some
+     scope between the initial one and the one the compiler computed *)
+  Definition SIMseq (ev : env -> value -> res (value * env)) (c : list instr) (sc sc' : scope) : Prop :=
+    forall e v v' e' w pc stk ls mv L,
+      ev e v = Ret (v', e') w -> code_at C pc c -> erel sc e ls -> vrel v mv -> length L = base ->
+      exists mv' ls' sc'',
+        star (st pc (mv :: stk) (L ++ ls)) (st (pc + length c) (mv' :: stk) (L ++ ls')) /\
+        vrel v' mv' /\ erel sc'' e' ls' /\ grows ls ls' /\
+        (exists s1 s2, sc'' = sc ++ s1 /\ sc' = sc'' ++ s2).
+
+  (* blocks: every branch starts from the block's input, kept in slot b *)
+  Definition SIMbr (ev : env -> value -> res value) (cb : list instr) (b : nat) (scb : scope) : Prop :=
+    forall e v r w pc stk lsb mv L,
+      ev e v = Ret r w -> code_at C pc cb -> erel scb e lsb -> vrel v mv -> length L = base ->
+      length lsb = S b -> nth_error lsb b = Some mv ->
+      exists mr ls',
+        star (st pc (mv :: stk) (L ++ lsb)) (st (pc + length cb) (mr :: stk) (L ++ ls')) /\
+        vrel r mr /\ grows lsb ls'.
 
   Lemma add_field_fresh : forall acc l w,
     (match l with Some _ => existsb (oatom_eqb l) (map fst acc) | None => false end) = false ->
@@ -353,278 +662,737 @@ Section Sim.
     rewrite Hr. reflexivity.
   Qed.
 
-  Lemma binder_sim : forall x, (x =? a_star) = false ->
-    forall sc, SIM (fun e v => do_match tf (mkCtx vnil None []) e (MIdentifier x) v) binder_code sc (sc ++ [Some x]).
-  Proof.
-    intros x Hx sc e v v' e' w pc stk ls mv L Hev Hat Her Hv HL.
-    cbn in Hev. inversion Hev; subst. exists mok, (ls ++ [mv]). split; [|split].
-    - rewrite app_assoc. apply binder_exec. exact Hat.
-    - apply vrel_ok.
-    - constructor; try assumption. intros ->. cbn in Hx. discriminate.
-  Qed.
-
   Lemma do_match_bare : forall c e x v, do_match tf c e (MIdentifier x) v = Ret (vok, (x, v) :: e) st0.
   Proof. reflexivity. Qed.
 
-  Theorem compile_simulates :
-    (forall t ctx sc c sc', compile_term pool shapes sc t = Some (c, sc') ->
-                            SIM (eval_term tf cf imf ctx t) c sc sc') /\
-    (forall ch ctx sc c sc', compile_chain pool shapes sc ch = Some (c, sc') ->
-                             SIM (eval_chain tf cf imf ctx ch) c sc sc').
+  (* the evaluator's own equality decides a literal match; it is the verdict handed to IEqual *)
+  Definition lit_verdict (z : Z) (v : value) : bool := match v with VInt y => z =? y | _ => false end.
+  Lemma do_match_lit : forall c e z v,
+    do_match tf c e (MLiteral (LInteger z)) v =
+    if lit_verdict z v then Ret (vok, e) st0 else Ret (vnil, e) ev_match_fail.
+  Proof. intros c e z v. unfold do_match. cbn. destruct v; try reflexivity. cbn. destruct (z =? n); reflexivity. Qed.
+
+  Lemma literal_match_exec : forall pc z k mv stk ls (verdict : bool),
+    code_at C pc (literal_match_code k) -> const_index pool z = Some k ->
+    star (st pc (mv :: stk) ls) (st (pc + length (literal_match_code k)) ((if verdict then mok else mnil) :: stk) ls).
   Proof.
-    assert (H : (forall t ctx sc c sc', compile_term pool shapes sc t = Some (c, sc') -> SIM (eval_term tf cf imf ctx t) c sc sc') /\
-                (forall ch ctx sc c sc', compile_chain pool shapes sc ch = Some (c, sc') -> SIM (eval_chain tf cf imf ctx ch) c sc sc') /\
-                (forall s : sequence, True) /\ (forall b : expression, True)).
-    { apply (ast_mutind
-        (fun t => forall ctx sc c sc', compile_term pool shapes sc t = Some (c, sc') -> SIM (eval_term tf cf imf ctx t) c sc sc')
+    intros pc z k mv stk ls verdict Hat Hk. pose proof (code_at_bound _ _ Hat) as Hb. cbn [literal_match_code length] in Hb.
+    unfold literal_match_code in Hat.
+    destruct (code_at_head _ _ _ _ Hat) as [H0 A1]. destruct (code_at_head _ _ _ _ A1) as [H1 A2].
+    destruct (code_at_head _ _ _ _ A2) as [H2 A3]. destruct (code_at_head _ _ _ _ A3) as [H3 A4].
+    destruct (code_at_head _ _ _ _ A4) as [H4 A5]. destruct (code_at_head _ _ _ _ A5) as [H5 A6].
+    destruct (code_at_head _ _ _ _ A6) as [H6 A7]. destruct (code_at_head _ _ _ _ A7) as [H7 A8].
+    destruct (code_at_head _ _ _ _ A8) as [H8 A9]. destruct (code_at_head _ _ _ _ A9) as [H9 A10].
+    destruct (code_at_head _ _ _ _ A10) as [H10 A11]. destruct (code_at_head _ _ _ _ A11) as [H11 _].
+    eapply star_step. { apply step_jump; [exact H0 | lia]. }
+    replace (Z.to_nat (Z.of_nat pc + 1 + 1)) with (S (S pc)) by lia.
+    eapply star_step. { apply step_dup; exact H2. }
+    eapply star_step. { eapply step_const; eassumption. }
+    eapply star_step. { apply (step_equal2 _ _ _ _ _ verdict); exact H4. }
+    eapply star_step. { apply step_not; exact H5. }
+    cbn [length]. destruct verdict.
+    - (* equal: Not Ok = nil: fall through, pop the value, push Ok, jump to the end *)
+      eapply star_step. { eapply step_jumpif_fall; [exact H6 | reflexivity]. }
+      eapply star_step. { apply step_pop; exact H7. }
+      eapply star_step.
+      { apply (step_tuple (S (S (S (S (S (S (S (S pc)))))))) Quiver.vm.Bytecode.OK 0%nat [] stk); [exact H8 | | reflexivity].
+        exact (Hshapes _ _ shape_index_ok). }
+      eapply star_step. { apply step_jump; [exact H9 | lia]. }
+      replace (Z.to_nat (Z.of_nat (S (S (S (S (S (S (S (S (S pc))))))))) + 2 + 1)) with (pc + 12)%nat by lia. constructor.
+    - (* different: jump back to the second instruction, which jumps to the failure path *)
+      eapply star_step. { apply step_jumpif_take; [exact H6 | reflexivity | lia]. }
+      replace (Z.to_nat (Z.of_nat (S (S (S (S (S (S pc)))))) + -6 + 1)) with (S pc) by lia.
+      eapply star_step. { apply step_jump; [exact H1 | lia]. }
+      replace (Z.to_nat (Z.of_nat (S pc) + 8 + 1)) with (S (S (S (S (S (S (S (S (S (S pc)))))))))) by lia.
+      eapply star_step. { apply step_pop; exact H10. }
+      eapply star_step.
+      { apply (step_tuple (S (S (S (S (S (S (S (S (S (S (S pc))))))))))) Quiver.vm.Bytecode.NIL 0%nat [] stk); [exact H11 | | reflexivity].
+        exact (Hshapes _ _ shape_index_nil). }
+      replace (S (S (S (S (S (S (S (S (S (S (S (S pc)))))))))))) with (pc + 12)%nat by lia. constructor.
+  Qed.
+
+  Lemma erel_scope_eq : forall sc s e ls extra,
+    erel (sc ++ s) e (ls ++ extra) -> length ls = length sc -> length s = length extra.
+  Proof.
+    intros sc s e ls extra H Hl. apply erel_length in H. rewrite !app_length in H. lia.
+  Qed.
+
+  Lemma firstn_app_exact : forall A (a b : list A), firstn (length a) (a ++ b) = a.
+  Proof. intros A a b. rewrite firstn_app, Nat.sub_diag, firstn_all. cbn. apply app_nil_r. Qed.
+
+  Lemma star_refl_pc : forall pc1 pc2 stk ls, pc1 = pc2 -> star (st pc1 stk ls) (st pc2 stk ls).
+  Proof. intros; subst; constructor. Qed.
+
+  Definition reset_opt (b : nat) (sc1 : scope) : list instr :=
+    if Nat.ltb (S b) (length sc1) then [IReset (S b)] else [].
+
+  (* a sequence run inside a block, followed by the reset to the block's slots when it bound
+     something: the locals are back to the block's slots afterwards *)
+  Lemma seq_reset_exec : forall ev c scb sc1 b,
+    SIMseq ev c scb sc1 ->
+    forall e v x e1 w1 pc stk lsb mv L (post : list instr),
+      ev e v = Ret (x, e1) w1 -> code_at C pc (c ++ reset_opt b sc1 ++ post) ->
+      erel scb e lsb -> vrel v mv -> length L = base -> length lsb = S b ->
+      exists mx, star (st pc (mv :: stk) (L ++ lsb)) (st (pc + length (c ++ reset_opt b sc1)) (mx :: stk) (L ++ lsb)) /\
+                 vrel x mx /\ (Nat.ltb (S b) (length sc1) = false -> erel scb e1 lsb).
+  Proof.
+    intros ev c scb sc1 b Hsim e v x e1 w1 pc stk lsb mv L post Hev Hat Her Hv HL Hlb.
+    destruct (code_at_app _ _ _ _ Hat) as [Hat1 Hat2].
+    destruct (Hsim e v x e1 w1 pc stk lsb mv L Hev Hat1 Her Hv HL)
+      as (mx & ls1 & sc'' & Hst & Hvx & Her1 & [extra Hgr] & (t1 & t2 & Ht1 & Ht2)).
+    exists mx. rewrite app_length. unfold reset_opt in *.
+    destruct (Nat.ltb (S b) (length sc1)) eqn:Hbound.
+    - split; [|split; [assumption | discriminate]].
+      destruct (code_at_app _ _ _ _ Hat2) as [Hat3 _]. destruct (code_at_head _ _ _ _ Hat3) as [Hres _].
+      eapply star_trans; [exact Hst|]. eapply star_step.
+      { apply step_reset; [exact Hres|]. subst ls1. rewrite !app_length, HL, Hlb. apply Nat.add_le_mono_l, Nat.le_add_r. }
+      cbn [length]. replace (pc + (length c + 1))%nat with (S (pc + length c)) by lia.
+      subst ls1. rewrite <- HL, <- Hlb, <- app_length, app_assoc, firstn_app_exact. constructor.
+    - apply Nat.ltb_ge in Hbound. cbn [length]. rewrite Nat.add_0_r.
+      assert (Hex : extra = [] /\ t1 = []).
+      { pose proof (erel_length _ _ _ Her) as Hl0. pose proof (erel_length _ _ _ Her1) as Hl1.
+        rewrite Ht2, Ht1 in Hbound. rewrite !app_length in Hbound. rewrite Hgr, Ht1 in Hl1. rewrite !app_length in Hl1.
+        split; [destruct extra | destruct t1]; try reflexivity; cbn [length] in *; lia. }
+      destruct Hex as [-> ->]. rewrite app_nil_r in *. subst ls1 sc''.
+      split; [exact Hst | split; [assumption | intros _; exact Her1]].
+  Qed.
+
+  Lemma eval_expr_cons : forall ctx cd k r e v,
+    eval_expr tf cf imf ctx (Expression (Branch cd k :: r)) e v =
+    (do x <- eval_sequence tf cf imf ctx cd e v ;;
+     if is_nil (fst x) then tick ev_fallthrough (eval_expr tf cf imf ctx (Expression r) e v)
+     else match k with
+          | None => ret (fst x)
+          | Some ks => tick ev_commit (do y <- eval_sequence tf cf imf ctx ks (snd x) v ;; ret (fst y))
+          end).
+  Proof. reflexivity. Qed.
+
+  Theorem compile_simulates_all :
+    (forall t ctx sc c sc', compile_term pool shapes isfun fnum sc t = Some (c, sc') ->
+                            SIM (eval_term tf cf imf ctx t) c sc sc') /\
+    (forall ch ctx sc c sc', compile_chain pool shapes isfun fnum sc ch = Some (c, sc') ->
+                             SIM (eval_chain tf cf imf ctx ch) c sc sc') /\
+    (forall s ctx sc c sc', seq_go (seq_chains s) sc = Some (c, sc') ->
+                            SIMseq (eval_sequence tf cf imf ctx s) c sc sc') /\
+    (forall ex ctx b scb cb, match ex with Expression bs => br_go b scb bs end = Some cb ->
+                             SIMbr (eval_expr tf cf imf ctx ex) cb b scb).
+  Proof.
+    apply (ast_mutind
+        (fun t => forall ctx sc c sc', compile_term pool shapes isfun fnum sc t = Some (c, sc') -> SIM (eval_term tf cf imf ctx t) c sc sc')
         (fun f => match f with
-                  | TupleField _ (FChain ch) => forall ctx sc c sc', compile_chain pool shapes sc ch = Some (c, sc') -> SIM (eval_chain tf cf imf ctx ch) c sc sc'
+                  | TupleField _ (FChain ch) => forall ctx sc c sc', compile_chain pool shapes isfun fnum sc ch = Some (c, sc') -> SIM (eval_chain tf cf imf ctx ch) c sc sc'
                   | _ => True
                   end)
         (fun _ => True)
-        (fun ch => forall ctx sc c sc', compile_chain pool shapes sc ch = Some (c, sc') -> SIM (eval_chain tf cf imf ctx ch) c sc sc')
-        (fun _ => True) (fun _ => True) (fun _ => True)); try (intros; exact I); try (intros; discriminate).
-      - (* Literal *)
-        intros [z|bs] ctx sc c sc' Hc; [|discriminate]. cbn [compile_term] in Hc.
-        destruct (const_index pool z) as [k|] eqn:Hk; [|discriminate]. inversion Hc; subst c sc'. clear Hc.
-        intros e v v' e' w pc stk ls mv L Hev Hat Her Hv HL. cbn in Hev. inversion Hev; subst.
-        destruct (code_at_head _ _ _ _ Hat) as [H0 Hat1]. destruct (code_at_head _ _ _ _ Hat1) as [H1 _].
-        exists (MInt z), ls. split; [|split; [constructor | assumption]].
-        eapply star_step; [apply step_pop; exact H0|]. eapply star_step; [eapply step_const; eassumption|].
-        cbn [length]. replace (pc + 2)%nat with (S (S pc)) by lia. constructor.
-      - (* Tuple *)
-        intros name fs Hfs ctx sc c sc' Hc. rewrite compile_term_tuple in Hc.
-        pose (go := fields_go).
-        assert (Hgo : forall fs, Forall (fun f => match f with
-                                                  | TupleField _ (FChain ch) => forall ctx sc c sc', compile_chain pool shapes sc ch = Some (c, sc') -> SIM (eval_chain tf cf imf ctx ch) c sc sc'
-                                                  | _ => True
-                                                  end) fs ->
-                  forall i sc labels cfs sc' labels', go fs i sc labels = Some (cfs, sc', labels') ->
-                  forall e v acc inh r inh' e' w pc stk ls mvals mv L,
-                    fields_with (eval_chain tf cf imf ctx) fs e v acc inh = Ret (r, inh', e') w ->
-                    code_at C pc cfs -> erel sc e ls -> vrel v mv -> length L = base ->
-                    length mvals = i -> Forall2 (fun f m => vrel (snd f) m) acc mvals -> map fst acc = labels ->
-                    exists mvals' ls',
-                      star (st pc (rev mvals ++ mv :: stk) (L ++ ls)) (st (pc + length cfs) (rev mvals' ++ mv :: stk) (L ++ ls')) /\
-                      Forall2 (fun f m => vrel (snd f) m) r mvals' /\ map fst r = labels' /\ erel sc' e' ls').
-        { clear Hc. intros fs0 HF. induction HF as [|[l [ch|src]] r0 Hf _ IH];
-            intros i sc0 labels cfs sc0' labels' Hg e v acc inh r inh' e' w pc stk ls mvals mv L Hev Hat Her Hv HL Hlen Hacc Hlab.
-          - cbn in Hg. inversion Hg; subst. cbn in Hev. inversion Hev; subst.
-            exists mvals, ls. rewrite Nat.add_0_r. repeat split; try assumption. constructor.
-          - unfold go in *. cbn [fields_go] in Hg.
-            destruct (match l with Some _ => existsb (oatom_eqb l) labels | None => false end) eqn:Hfresh; [discriminate|].
-            destruct (compile_chain pool shapes sc0 ch) as [[cc sc1]|] eqn:Hcc; [|discriminate].
-            destruct (fields_go r0 (S i) sc1 (labels ++ [l])) as [[[cr sc2] ls2]|] eqn:Hgr; [|discriminate].
-            inversion Hg; subst cfs sc0' labels'. clear Hg.
-            cbn [fields_with] in Hev.
-            destruct (eval_chain tf cf imf ctx ch e v) as [[x e1] w1| | |] eqn:Hch; try discriminate. cbn [bind fst snd] in Hev.
-            destruct (fields_with (eval_chain tf cf imf ctx) r0 e1 v (add_field acc l x) inh) as [[[r1 inh1] e2] w2| | |] eqn:Hr; try discriminate.
-            cbn in Hev. inversion Hev; subst r1 inh1 e2. clear Hev.
-            destruct (code_at_head _ _ _ _ Hat) as [Hpick Hat1]. destruct (code_at_app _ _ _ _ Hat1) as [Hatc Hatr].
-            destruct (Hf ctx sc0 cc sc1 Hcc e v x e1 w1 (S pc) (rev mvals ++ mv :: stk) ls mv L Hch Hatc Her Hv HL) as (mx & ls1 & Hst1 & Hvx & Her1).
-            rewrite <- Hlab in Hfresh. rewrite (add_field_fresh acc l x Hfresh) in Hr.
-            destruct (IH (S i) sc1 (labels ++ [l]) cr sc2 ls2 Hgr e1 v (acc ++ [(l, x)]) inh r inh' e' w2 (S pc + length cc)%nat stk ls1 (mvals ++ [mx]) mv L Hr Hatr Her1 Hv HL)
-              as (mvals' & ls' & Hst2 & Hr' & Hlab' & Her').
-            { rewrite app_length. cbn. lia. }
-            { apply Forall2_app; [assumption | constructor; [exact Hvx | constructor]]. }
-            { rewrite map_app, Hlab. reflexivity. }
-            exists mvals', ls'. repeat split; try assumption.
-            eapply star_step.
-            { apply (step_pick pc i mv); [exact Hpick|]. rewrite nth_error_app2 by (rewrite rev_length; lia).
-              rewrite rev_length, Hlen, Nat.sub_diag. reflexivity. }
-            eapply star_trans; [exact Hst1|].
-            cbn [length]. rewrite app_length.
-            replace (pc + S (length cc + length cr))%nat with (S pc + length cc + length cr)%nat by lia.
-            rewrite rev_app_distr in Hst2. cbn [rev app] in Hst2. exact Hst2.
-          - unfold go in *. cbn [fields_go] in Hg. discriminate. }
-        destruct name as [|a|]; [| |discriminate]; unfold go in *.
-        + destruct (fields_go fs 0%nat sc []) as [[[cfs sc1] labels]|] eqn:Hg; [|discriminate].
-          destruct (shape_index shapes (None, labels)) as [t|] eqn:Ht; [|discriminate]. inversion Hc; subst c sc'. clear Hc.
-          intros e v v' e' w pc stk ls mv L Hev Hat Her Hv HL. rewrite eval_term_tuple in Hev.
-          destruct (fields_with (eval_chain tf cf imf ctx) fs e v [] None) as [[[r inh] e1] w1| | |] eqn:Hf; try discriminate.
-          cbn in Hev. inversion Hev; subst v' e'. clear Hev.
-          destruct (code_at_app _ _ _ _ Hat) as [Hatf Hatt].
-          destruct (Hgo fs Hfs 0%nat sc [] cfs sc1 labels Hg e v [] None r inh e1 w1 pc stk ls [] mv L Hf Hatf Her Hv HL eq_refl (Forall2_nil _) eq_refl)
-            as (mvals & ls' & Hst & Hr & Hlab & Her').
-          destruct (code_at_head _ _ _ _ Hatt) as [Ht0 Hatt1]. destruct (code_at_head _ _ _ _ Hatt1) as [Ht1 Hatt2].
-          destruct (code_at_head _ _ _ _ Hatt2) as [Ht2 _].
-          exists (MTuple t mvals), ls'. split; [|split; [|assumption]].
-          * eapply star_trans; [exact Hst|].
-            eapply star_step.
-            { apply (step_tuple (pc + length cfs) t (length labels) mvals (mv :: stk)); [exact Ht0 | exact (Hshapes _ _ Ht) |].
-              rewrite <- Hlab, map_length. symmetry. eapply F2_length. exact Hr. }
-            eapply star_step; [apply step_rot2; exact Ht1|]. eapply star_step; [apply step_pop; exact Ht2|].
-            rewrite app_length. cbn [length]. replace (pc + (length cfs + 3))%nat with (S (S (S (pc + length cfs)))) by lia. constructor.
-          * apply vr_tup; [rewrite Hlab; exact Ht | exact Hr].
-        + destruct (fields_go fs 0%nat sc []) as [[[cfs sc1] labels]|] eqn:Hg; [|discriminate].
-          destruct (shape_index shapes (Some a, labels)) as [t|] eqn:Ht; [|discriminate]. inversion Hc; subst c sc'. clear Hc.
-          intros e v v' e' w pc stk ls mv L Hev Hat Her Hv HL. rewrite eval_term_tuple in Hev.
-          destruct (fields_with (eval_chain tf cf imf ctx) fs e v [] None) as [[[r inh] e1] w1| | |] eqn:Hf; try discriminate.
-          cbn in Hev. inversion Hev; subst v' e'. clear Hev.
-          destruct (code_at_app _ _ _ _ Hat) as [Hatf Hatt].
-          destruct (Hgo fs Hfs 0%nat sc [] cfs sc1 labels Hg e v [] None r inh e1 w1 pc stk ls [] mv L Hf Hatf Her Hv HL eq_refl (Forall2_nil _) eq_refl)
-            as (mvals & ls' & Hst & Hr & Hlab & Her').
-          destruct (code_at_head _ _ _ _ Hatt) as [Ht0 Hatt1]. destruct (code_at_head _ _ _ _ Hatt1) as [Ht1 Hatt2].
-          destruct (code_at_head _ _ _ _ Hatt2) as [Ht2 _].
-          exists (MTuple t mvals), ls'. split; [|split; [|assumption]].
-          * eapply star_trans; [exact Hst|].
-            eapply star_step.
-            { apply (step_tuple (pc + length cfs) t (length labels) mvals (mv :: stk)); [exact Ht0 | exact (Hshapes _ _ Ht) |].
-              rewrite <- Hlab, map_length. symmetry. eapply F2_length. exact Hr. }
-            eapply star_step; [apply step_rot2; exact Ht1|]. eapply star_step; [apply step_pop; exact Ht2|].
-            rewrite app_length. cbn [length]. replace (pc + (length cfs + 3))%nat with (S (S (S (pc + length cfs)))) by lia. constructor.
-          * apply vr_tup; [rewrite Hlab; exact Ht | exact Hr].
-      - (* Match *)
-        intros p ctx sc c sc' Hc. destruct p; try discriminate. cbn [compile_term] in Hc.
-        destruct (x =? a_star) eqn:Hx; [discriminate|]. inversion Hc; subst c sc'. clear Hc.
+        (fun ch => forall ctx sc c sc', compile_chain pool shapes isfun fnum sc ch = Some (c, sc') -> SIM (eval_chain tf cf imf ctx ch) c sc sc')
+        (fun s => forall ctx sc c sc', seq_go (seq_chains s) sc = Some (c, sc') -> SIMseq (eval_sequence tf cf imf ctx s) c sc sc')
+        (fun br => match br with
+                   | Branch cd k =>
+                       (forall ctx sc c sc', seq_go (seq_chains cd) sc = Some (c, sc') -> SIMseq (eval_sequence tf cf imf ctx cd) c sc sc') /\
+                       Popt (fun s => forall ctx sc c sc', seq_go (seq_chains s) sc = Some (c, sc') -> SIMseq (eval_sequence tf cf imf ctx s) c sc sc') k
+                   end)
+        (fun ex => forall ctx b scb cb, match ex with Expression bs => br_go b scb bs end = Some cb -> SIMbr (eval_expr tf cf imf ctx ex) cb b scb));
+      try (intros; exact I); try (intros; discriminate).
+    - (* Literal *)
+      intros [z|bs] ctx sc c sc' Hc; [|discriminate]. cbn [compile_term] in Hc.
+      destruct (const_index pool z) as [k|] eqn:Hk; [|discriminate]. inversion Hc; subst c sc'. clear Hc.
+      intros e v v' e' w pc stk ls mv L Hev Hat Her Hv HL. cbn in Hev. inversion Hev; subst.
+      destruct (code_at_head _ _ _ _ Hat) as [H0 Hat1]. destruct (code_at_head _ _ _ _ Hat1) as [H1 _].
+      exists (MInt z), ls. split; [|split; [constructor | split; [assumption | apply grows_refl]]].
+      eapply star_step; [apply step_pop; exact H0|]. eapply star_step; [eapply step_const; eassumption|].
+      cbn [length]. replace (pc + 2)%nat with (S (S pc)) by lia. constructor.
+    - (* Tuple *)
+      intros name fs Hfs ctx sc c sc' Hc. rewrite compile_term_tuple in Hc.
+      assert (Hgo : forall fs, Forall (fun f => match f with
+                                                | TupleField _ (FChain ch) => forall ctx sc c sc', compile_chain pool shapes isfun fnum sc ch = Some (c, sc') -> SIM (eval_chain tf cf imf ctx ch) c sc sc'
+                                                | _ => True
+                                                end) fs ->
+                forall i sc labels cfs sc' labels', fields_go fs i sc labels = Some (cfs, sc', labels') ->
+                forall e v acc inh r inh' e' w pc stk ls mvals mv L,
+                  fields_with (eval_chain tf cf imf ctx) fs e v acc inh = Ret (r, inh', e') w ->
+                  code_at C pc cfs -> erel sc e ls -> vrel v mv -> length L = base ->
+                  length mvals = i -> Forall2 (fun f m => vrel (snd f) m) acc mvals -> map fst acc = labels ->
+                  exists mvals' ls',
+                    star (st pc (rev mvals ++ mv :: stk) (L ++ ls)) (st (pc + length cfs) (rev mvals' ++ mv :: stk) (L ++ ls')) /\
+                    Forall2 (fun f m => vrel (snd f) m) r mvals' /\ map fst r = labels' /\ erel sc' e' ls' /\ grows ls ls').
+      { clear Hc. intros fs0 HF. induction HF as [|[l [chn|src]] r0 Hf _ IH];
+          intros i sc0 labels cfs sc0' labels' Hg e v acc inh r inh' e' w pc stk ls mvals mv L Hev Hat Her Hv HL Hlen Hacc Hlab.
+        - cbn in Hg. inversion Hg; subst. cbn in Hev. inversion Hev; subst.
+          exists mvals, ls. rewrite Nat.add_0_r. repeat split; try assumption; [constructor | apply grows_refl].
+        - cbn [fields_go] in Hg.
+          destruct (match l with Some _ => existsb (oatom_eqb l) labels | None => false end) eqn:Hfresh; [discriminate|].
+          destruct (compile_chain pool shapes isfun fnum sc0 chn) as [[cc sc1]|] eqn:Hcc; [|discriminate].
+          destruct (fields_go r0 (S i) sc1 (labels ++ [l])) as [[[cr sc2] ls2]|] eqn:Hgr; [|discriminate].
+          inversion Hg; subst cfs sc0' labels'. clear Hg.
+          cbn [fields_with] in Hev.
+          destruct (eval_chain tf cf imf ctx chn e v) as [[x e1] w1| | |] eqn:Hch; try discriminate. cbn [bind fst snd] in Hev.
+          destruct (fields_with (eval_chain tf cf imf ctx) r0 e1 v (add_field acc l x) inh) as [[[r1 inh1] e2] w2| | |] eqn:Hr; try discriminate.
+          cbn in Hev. inversion Hev; subst r1 inh1 e2. clear Hev.
+          destruct (code_at_head _ _ _ _ Hat) as [Hpick Hat1]. destruct (code_at_app _ _ _ _ Hat1) as [Hatc Hatr].
+          destruct (Hf ctx sc0 cc sc1 Hcc e v x e1 w1 (S pc) (rev mvals ++ mv :: stk) ls mv L Hch Hatc Her Hv HL) as (mx & ls1 & Hst1 & Hvx & Her1 & Hg1).
+          rewrite <- Hlab in Hfresh. rewrite (add_field_fresh acc l x Hfresh) in Hr.
+          destruct (IH (S i) sc1 (labels ++ [l]) cr sc2 ls2 Hgr e1 v (acc ++ [(l, x)]) inh r inh' e' w2 (S pc + length cc)%nat stk ls1 (mvals ++ [mx]) mv L Hr Hatr Her1 Hv HL)
+            as (mvals' & ls' & Hst2 & Hr' & Hlab' & Her' & Hg2).
+          { rewrite app_length. cbn. lia. }
+          { apply Forall2_app; [assumption | constructor; [exact Hvx | constructor]]. }
+          { rewrite map_app, Hlab. reflexivity. }
+          exists mvals', ls'. repeat split; try assumption; [|eapply grows_trans; eassumption].
+          eapply star_step.
+          { apply (step_pick pc i mv); [exact Hpick|]. rewrite nth_error_app2 by (rewrite rev_length; lia).
+            rewrite rev_length, Hlen, Nat.sub_diag. reflexivity. }
+          eapply star_trans; [exact Hst1|].
+          cbn [length]. rewrite app_length.
+          replace (pc + S (length cc + length cr))%nat with (S pc + length cc + length cr)%nat by lia.
+          rewrite rev_app_distr in Hst2. cbn [rev app] in Hst2. exact Hst2.
+        - cbn [fields_go] in Hg. discriminate. }
+      assert (Hfin : forall nm, name <> Inherit -> (match name with Named a => Some a | _ => None end) = nm ->
+                forall cfs sc1 labels t, fields_go fs 0%nat sc [] = Some (cfs, sc1, labels) -> shape_index shapes (nm, labels) = Some t ->
+                SIM (eval_term tf cf imf ctx (Tuple name fs)) (cfs ++ [ITuple t; IRotate 2; IPop]) sc sc1).
+      { intros nm Hni Hnm cfs sc1 labels t Hg Ht e v v' e' w pc stk ls mv L Hev Hat Her Hv HL. rewrite eval_term_tuple in Hev.
+        destruct (fields_with (eval_chain tf cf imf ctx) fs e v [] None) as [[[r inh] e1] w1| | |] eqn:Hf; try discriminate.
+        assert (Hval : v' = VTuple nm r /\ e' = e1).
+        { destruct name as [|a|]; [| |congruence]; cbn in Hev, Hnm; inversion Hev; subst; auto. }
+        destruct Hval as [-> ->]. clear Hev.
+        destruct (code_at_app _ _ _ _ Hat) as [Hatf Hatt].
+        destruct (Hgo fs Hfs 0%nat sc [] cfs sc1 labels Hg e v [] None r inh e1 w1 pc stk ls [] mv L Hf Hatf Her Hv HL eq_refl (Forall2_nil _) eq_refl)
+          as (mvals & ls' & Hst & Hr & Hlab & Her' & Hgr).
+        destruct (code_at_head _ _ _ _ Hatt) as [Ht0 Hatt1]. destruct (code_at_head _ _ _ _ Hatt1) as [Ht1 Hatt2].
+        destruct (code_at_head _ _ _ _ Hatt2) as [Ht2 _].
+        exists (MTuple t mvals), ls'. split; [|split; [|split; assumption]].
+        * eapply star_trans; [exact Hst|].
+          eapply star_step.
+          { apply (step_tuple (pc + length cfs) t (length labels) mvals (mv :: stk)); [exact Ht0 | exact (Hshapes _ _ Ht) |].
+            rewrite <- Hlab, map_length. symmetry. eapply F2_length. exact Hr. }
+          eapply star_step; [apply step_rot2; exact Ht1|]. eapply star_step; [apply step_pop; exact Ht2|].
+          rewrite app_length. cbn [length]. replace (pc + (length cfs + 3))%nat with (S (S (S (pc + length cfs)))) by lia. constructor.
+        * apply vr_tup; [rewrite Hlab; exact Ht | exact Hr]. }
+      destruct name as [|a|]; [| |discriminate];
+        (destruct (fields_go fs 0%nat sc []) as [[[cfs sc1] labels]|] eqn:Hg; [|discriminate];
+         match type of Hc with context [shape_index shapes ?sh] => destruct (shape_index shapes sh) as [t|] eqn:Ht end; [|discriminate];
+         inversion Hc; subst c sc'; eapply Hfin; try eassumption; try reflexivity; discriminate).
+    - (* Match *)
+      intros p ctx sc c sc' Hc. destruct p as [x|l| | | | | | | | |]; try discriminate; cbn [compile_term] in Hc.
+      + destruct (x =? a_star) eqn:Hx; [discriminate|]. destruct (isfun x) eqn:Hfx; [discriminate|]. cbn [orb] in Hc.
+        inversion Hc; subst c sc'. clear Hc.
         intros e v v' e' w pc stk ls mv L Hev Hat Her Hv HL. rewrite eval_term_match, do_match_bare in Hev.
-        inversion Hev; subst. exists mok, (ls ++ [mv]). split; [|split].
-        + rewrite app_assoc. apply binder_exec. exact Hat.
-        + apply vrel_ok.
-        + constructor; try assumption. intros ->. cbn in Hx. discriminate.
-      - (* Access *)
-        intros [src path] ctx sc c sc' Hc. cbn [compile_term] in Hc.
-        destruct src as [[y| | |p| |b|[y|]|]|]; try discriminate.
-        + (* identifier *)
-          destruct (scope_lookup sc y) as [i|] eqn:Hi; [|discriminate].
-          destruct (gets path) as [cg|] eqn:Hg; [|discriminate]. inversion Hc; subst c sc'. clear Hc.
+        inversion Hev; subst. exists mok, (ls ++ [mv]). split; [|split; [|split]].
+        * rewrite app_assoc. apply binder_exec. exact Hat.
+        * apply vrel_ok.
+        * apply erel_push; [assumption | assumption | intros ->; cbn in Hx; discriminate | exact Hfx].
+        * apply grows_snoc, grows_refl.
+      + destruct l as [z|]; [|discriminate]. destruct (const_index pool z) as [k|] eqn:Hk; [|discriminate].
+        inversion Hc; subst c sc'. clear Hc.
+        intros e v v' e' w pc stk ls mv L Hev Hat Her Hv HL. rewrite eval_term_match, do_match_lit in Hev.
+        exists (if lit_verdict z v then mok else mnil), ls. split; [|split; [|split; [|apply grows_refl]]].
+        * eapply literal_match_exec; eassumption.
+        * destruct (lit_verdict z v); inversion Hev; subst; [apply vrel_ok | apply vrel_nil].
+        * destruct (lit_verdict z v); inversion Hev; subst; assumption.
+    - (* Block *)
+      intros [bs] Hbs ctx sc c sc' Hc. rewrite compile_term_block in Hc.
+      destruct (br_go (length sc) (sc ++ [None]) bs) as [cb|] eqn:Hb; [|discriminate]. inversion Hc; subst c sc'. clear Hc.
+      intros e v v' e' w pc stk ls mv L Hev Hat Her Hv HL. rewrite eval_term_block in Hev.
+      unfold with_env in Hev. destruct (eval_expr tf cf imf ctx (Expression bs) e v) as [r wr| | |] eqn:Hex; try discriminate.
+      cbn in Hev. inversion Hev; subst v' e'. clear Hev.
+      pose proof (erel_length _ _ _ Her) as Hlen.
+      destruct (code_at_head _ _ _ _ Hat) as [H0 A1]. destruct (code_at_head _ _ _ _ A1) as [H1 A2].
+      destruct (code_at_app _ _ _ _ A2) as [Hatb A3]. destruct (code_at_head _ _ _ _ A3) as [Hres _].
+      destruct (Hbs ctx (length sc) (sc ++ [None]) cb Hb e v r wr (S (S pc)) stk (ls ++ [mv]) mv L Hex Hatb
+                  (erel_anon _ _ _ mv Her) Hv HL) as (mr & ls' & Hst & Hvr & [extra Hgr]).
+      { rewrite app_length. cbn. lia. }
+      { rewrite nth_error_app2 by lia. rewrite Hlen, Nat.sub_diag. reflexivity. }
+      exists mr, ls. split; [|split; [assumption | split; [assumption | apply grows_refl]]].
+      eapply star_step. { apply step_store; exact H0. }
+      eapply star_step.
+      { apply (step_load (S pc) (length sc) mv); [exact H1|]. rewrite <- app_assoc. rewrite nth_error_app2 by lia.
+        rewrite HL, Nat.add_comm, Nat.add_sub. rewrite nth_error_app2 by lia. rewrite Hlen, Nat.sub_diag. reflexivity. }
+      rewrite <- app_assoc. eapply star_trans; [exact Hst|].
+      eapply star_step.
+      { apply step_reset; [exact Hres|]. subst ls'. rewrite !app_length. lia. }
+      cbn [length]. rewrite app_length. cbn [length].
+      replace (pc + S (S (length cb + 1)))%nat with (S (S (S pc) + length cb))%nat by lia.
+      subst ls'. rewrite <- HL, <- Hlen, <- app_length. rewrite <- !app_assoc.
+      rewrite (app_assoc L ls). rewrite firstn_app_exact. constructor.
+    - (* Access *)
+      intros [src path] ctx sc c sc' Hc. cbn [compile_term] in Hc.
+      destruct src as [[y| | |p| |b|[y|]|]|]; try discriminate.
+      + destruct (isfun y) eqn:Hfy.
+        { (* a function variable: load it and call it with the flowing value *)
+          destruct (scope_lookup sc y) as [i|] eqn:Hi; [|discriminate]. destruct path; [|discriminate].
+          inversion Hc; subst c sc'. clear Hc.
           intros e v v' e' w pc stk ls mv L Hev Hat Her Hv HL. cbn [Lang.eval_term] in Hev.
           destruct (lookup_var y e) as [bv|] eqn:Hl; [|discriminate].
-          destruct (erel_lookup _ _ _ Her _ _ Hl) as (i' & mb & Hi' & Hn & Hvb). rewrite Hi in Hi'. inversion Hi'; subst i'.
-          unfold with_env in Hev. destruct (access_all bv path) as [x wx| | |] eqn:Ha; try discriminate.
-          destruct (code_at_head _ _ _ _ Hat) as [H0 Hat1]. destruct (code_at_head _ _ _ _ Hat1) as [H1 Hat2].
-          destruct (gets_exec path cg Hg bv x wx mb (S (S pc)) stk (L ++ ls) Ha Hvb Hat2) as (mx & Hst & Hvx).
-          cbn [bind] in Hev. unfold apply_value in Hev. rewrite (vrel_not_callable _ _ Hvx) in Hev. cbn in Hev.
-          inversion Hev; subst v' e'. exists mx, ls. split; [|split; assumption].
-          eapply star_step; [apply step_pop; exact H0|].
-          eapply star_step. { apply (step_load (S pc) i mb); [exact H1|]. rewrite nth_error_app2 by lia. rewrite HL, Nat.add_comm, Nat.add_sub. exact Hn. }
-          cbn [length]. replace (pc + S (S (length cg)))%nat with (S (S pc) + length cg)%nat by lia. exact Hst.
-        + (* ripple *)
-          destruct (gets path) as [cg|] eqn:Hg; [|discriminate]. inversion Hc; subst c sc'. clear Hc.
-          intros e v v' e' w pc stk ls mv L Hev Hat Her Hv HL. cbn [Lang.eval_term] in Hev.
-          unfold with_env in Hev. destruct (access_all v path) as [x wx| | |] eqn:Ha; try discriminate.
-          cbn in Hev. inversion Hev; subst v' e'.
-          destruct (gets_exec path cg Hg v x wx mv pc stk (L ++ ls) Ha Hv Hat) as (mx & Hst & Hvx).
-          exists mx, ls. split; [exact Hst | split; assumption].
-        + (* postfix *)
-          destruct (gets path) as [cg|] eqn:Hg; [|discriminate]. inversion Hc; subst c sc'. clear Hc.
-          intros e v v' e' w pc stk ls mv L Hev Hat Her Hv HL. cbn [Lang.eval_term] in Hev.
-          unfold with_env in Hev. destruct (access_all v path) as [x wx| | |] eqn:Ha; try discriminate.
-          cbn in Hev. inversion Hev; subst v' e'.
-          destruct (gets_exec path cg Hg v x wx mv pc stk (L ++ ls) Ha Hv Hat) as (mx & Hst & Hvx).
-          exists mx, ls. split; [exact Hst | split; assumption].
-      - (* field: chain *) intros n ch Hch. exact Hch.
-      - (* Chain *)
-        intros mp ts Hts ctx sc c sc' Hc. rewrite compile_chain_eq in Hc.
-        pose (go := terms_go).
-        assert (Hgo : forall ts0, Forall (fun t => forall ctx sc c sc', compile_term pool shapes sc t = Some (c, sc') -> SIM (eval_term tf cf imf ctx t) c sc sc') ts0 ->
-                  forall sc0 c0 sc0', go ts0 sc0 = Some (c0, sc0') ->
-                  SIM (terms_with (eval_term tf cf imf ctx) ts0) c0 sc0 sc0').
-        { clear Hc. intros ts0 HF. induction HF as [|t r Ht _ IH]; intros sc0 c0 sc0' Hg e v v' e' w pc stk ls mv L Hev Hat Her Hv HL.
-          - cbn in Hg. inversion Hg; subst. cbn in Hev. inversion Hev; subst. exists mv, ls. rewrite Nat.add_0_r.
-            split; [constructor | split; assumption].
-          - unfold go in *. cbn [terms_go] in Hg. destruct (compile_term pool shapes sc0 t) as [[ct sc1]|] eqn:Hct; [|discriminate].
-            destruct (terms_go r sc1) as [[cr sc2]|] eqn:Hgr; [|discriminate]. inversion Hg; subst c0 sc0'. clear Hg.
-            cbn [terms_with] in Hev. destruct (eval_term tf cf imf ctx t e v) as [[x e1] w1| | |] eqn:Het; try discriminate.
-            cbn [bind fst snd] in Hev.
-            destruct (terms_with (eval_term tf cf imf ctx) r e1 x) as [[y e2] w2| | |] eqn:Her2; try discriminate.
-            cbn in Hev. inversion Hev; subst y e2. clear Hev.
-            destruct (code_at_app _ _ _ _ Hat) as [Hat1 Hat2].
-            destruct (Ht ctx sc0 ct sc1 Hct e v x e1 w1 pc stk ls mv L Het Hat1 Her Hv HL) as (mx & ls1 & Hst1 & Hvx & Her1).
-            destruct (IH sc1 cr sc2 Hgr e1 x v' e' w2 (pc + length ct)%nat stk ls1 mx L Her2 Hat2 Her1 Hvx HL) as (my & ls2 & Hst2 & Hvy & Her2').
-            exists my, ls2. split; [|split; assumption]. rewrite app_length, Nat.add_assoc.
-            eapply star_trans; eassumption. }
-        unfold go in *. destruct (terms_go ts sc) as [[ct sc1]|] eqn:Hg; [|discriminate].
-        destruct mp as [p|].
-        + destruct p; try discriminate. destruct (x =? a_star) eqn:Hx; [discriminate|]. inversion Hc; subst c sc'. clear Hc.
-          intros e v v' e' w pc stk ls mv L Hev Hat Her Hv HL. rewrite eval_chain_some in Hev.
-          destruct (terms_with (eval_term tf cf imf ctx) ts e v) as [[y e1] w1| | |] eqn:Hts'; try discriminate.
-          cbn [bind fst snd] in Hev. rewrite do_match_bare in Hev. cbn in Hev. inversion Hev; subst v' e'. clear Hev.
+          destruct (erel_lookup_gen _ _ _ Her _ _ _ Hi Hl) as (mb & Hn & Hfr). rewrite Hfy in Hfr.
+          destruct Hfr as (body & cenv & te & k & -> & -> & Hk).
+          unfold with_env in Hev. cbn [access_all bind ret] in Hev. unfold apply_value in Hev.
+          cbn [is_callable tail_arg is_nilary] in Hev.
+          destruct (cf (VClos false (Some body) cenv te) v st0) as [r wr| | |] eqn:Hcall; try discriminate.
+          cbn in Hev. inversion Hev; subst v' e'. clear Hev.
+          destruct (code_at_head _ _ _ _ Hat) as [H0 Hat1]. destruct (code_at_head _ _ _ _ Hat1) as [H1 _].
+          destruct (Hcf body cenv te k v st0 r wr mv (S pc) stk (L ++ ls) Hk Hcall Hv H1) as (mr & Hst & Hvr).
+          exists mr, ls. split; [|split; [assumption | split; [assumption | apply grows_refl]]].
+          eapply star_step.
+          { apply (step_load pc i (MFun k [])); [exact H0|]. rewrite nth_error_app2 by lia. rewrite HL, Nat.add_comm, Nat.add_sub. exact Hn. }
+          cbn [length]. replace (pc + 2)%nat with (S (S pc)) by lia. exact Hst. }
+        destruct (scope_lookup sc y) as [i|] eqn:Hi; [|discriminate].
+        destruct (gets path) as [cg|] eqn:Hg; [|discriminate]. inversion Hc; subst c sc'. clear Hc.
+        intros e v v' e' w pc stk ls mv L Hev Hat Her Hv HL. cbn [Lang.eval_term] in Hev.
+        destruct (lookup_var y e) as [bv|] eqn:Hl; [|discriminate].
+        destruct (erel_lookup_gen _ _ _ Her _ _ _ Hi Hl) as (mb & Hn & Hvb). rewrite Hfy in Hvb.
+        unfold with_env in Hev. destruct (access_all bv path) as [x wx| | |] eqn:Ha; try discriminate.
+        destruct (code_at_head _ _ _ _ Hat) as [H0 Hat1]. destruct (code_at_head _ _ _ _ Hat1) as [H1 Hat2].
+        destruct (gets_exec path cg Hg bv x wx mb (S (S pc)) stk (L ++ ls) Ha Hvb Hat2) as (mx & Hst & Hvx).
+        cbn [bind] in Hev. unfold apply_value in Hev. rewrite (vrel_not_callable _ _ Hvx) in Hev. cbn in Hev.
+        inversion Hev; subst v' e'. exists mx, ls. split; [|split; [assumption | split; [assumption | apply grows_refl]]].
+        eapply star_step; [apply step_pop; exact H0|].
+        eapply star_step. { apply (step_load (S pc) i mb); [exact H1|]. rewrite nth_error_app2 by lia. rewrite HL, Nat.add_comm, Nat.add_sub. exact Hn. }
+        cbn [length]. replace (pc + S (S (length cg)))%nat with (S (S pc) + length cg)%nat by lia. exact Hst.
+      + destruct (gets path) as [cg|] eqn:Hg; [|discriminate]. inversion Hc; subst c sc'. clear Hc.
+        intros e v v' e' w pc stk ls mv L Hev Hat Her Hv HL. cbn [Lang.eval_term] in Hev.
+        unfold with_env in Hev. destruct (access_all v path) as [x wx| | |] eqn:Ha; try discriminate.
+        cbn in Hev. inversion Hev; subst v' e'.
+        destruct (gets_exec path cg Hg v x wx mv pc stk (L ++ ls) Ha Hv Hat) as (mx & Hst & Hvx).
+        exists mx, ls. split; [exact Hst | split; [assumption | split; [assumption | apply grows_refl]]].
+      + destruct (gets path) as [cg|] eqn:Hg; [|discriminate]. inversion Hc; subst c sc'. clear Hc.
+        intros e v v' e' w pc stk ls mv L Hev Hat Her Hv HL. cbn [Lang.eval_term] in Hev.
+        unfold with_env in Hev. destruct (access_all v path) as [x wx| | |] eqn:Ha; try discriminate.
+        cbn in Hev. inversion Hev; subst v' e'.
+        destruct (gets_exec path cg Hg v x wx mv pc stk (L ++ ls) Ha Hv Hat) as (mx & Hst & Hvx).
+        exists mx, ls. split; [exact Hst | split; [assumption | split; [assumption | apply grows_refl]]].
+    - (* field: chain *) intros n chn Hch. exact Hch.
+    - (* Chain *)
+      intros mp ts Hts ctx sc c sc' Hc. destruct (fun_binding (Chain mp ts)) as [[[f pt] body]|] eqn:Hfb.
+      { (* `f = #T { body }` *)
+        rewrite (compile_chain_fun _ _ _ _ _ Hfb) in Hc.
+        destruct (isfun f) eqn:Hff; [|discriminate]. destruct (f =? a_star) eqn:Hfs; [discriminate|].
+        destruct (nil_param pt) eqn:Hnp; [discriminate|]. cbn [andb negb] in Hc.
+        destruct (fnum body) as [k|] eqn:Hk; [|discriminate]. inversion Hc; subst c sc'. clear Hc.
+        unfold fun_binding in Hfb. destruct mp as [[x|l| | | | | | | | |]|]; try discriminate.
+        destruct ts as [|t [|t2 ts']]; try discriminate; destruct t; try discriminate;
+          destruct parameter_type; try discriminate; destruct body0; try discriminate; inversion Hfb; subst x t e.
+        assert (Hnl : nilary_of (c_tenv ctx) (Some pt) = false).
+        { unfold nilary_of. destruct pt; try reflexivity; try discriminate.
+          cbn [is_nil_ty]. destruct name; [reflexivity|]. destruct is_partial; [reflexivity|]. destruct fields; [discriminate | reflexivity]. }
+        intros e v v' e' w pc stk ls mv L Hev Hat Her Hv HL. rewrite eval_chain_some in Hev.
+        cbn [terms_with Lang.eval_term bind ret fst snd tick] in Hev. rewrite Hnl, do_match_bare in Hev. cbn in Hev.
+        inversion Hev; subst v' e'. clear Hev.
+        destruct (code_at_head _ _ _ _ Hat) as [H0 Hat1]. destruct (code_at_head _ _ _ _ Hat1) as [H1 Hat2].
+        destruct (Hfuns _ _ Hk) as (fcode & _ & Hfk).
+        exists mok, (ls ++ [MFun k []]). split; [|split; [|split]].
+        - eapply star_step; [apply step_pop; exact H0|].
+          eapply star_step; [apply (step_function (S pc) k fcode); [exact H1 | exact Hfk]|].
+          cbn [app length]. replace (pc + S (S (length binder_code)))%nat with (S (S pc) + length binder_code)%nat by lia.
+          rewrite app_assoc. apply binder_exec. exact Hat2.
+        - apply vrel_ok.
+        - apply erel_pushf; [assumption | | intros ->; cbn in Hfs; discriminate | exact Hff].
+          exists body, e, (c_tenv ctx), k. auto.
+        - apply grows_snoc, grows_refl. }
+      rewrite (compile_chain_eq _ _ _ Hfb) in Hc.
+      assert (Hgo : forall ts0, Forall (fun t => forall ctx sc c sc', compile_term pool shapes isfun fnum sc t = Some (c, sc') -> SIM (eval_term tf cf imf ctx t) c sc sc') ts0 ->
+                forall sc0 c0 sc0', terms_go ts0 sc0 = Some (c0, sc0') ->
+                SIM (terms_with (eval_term tf cf imf ctx) ts0) c0 sc0 sc0').
+      { clear Hc. intros ts0 HF. induction HF as [|t r Ht _ IH]; intros sc0 c0 sc0' Hg e v v' e' w pc stk ls mv L Hev Hat Her Hv HL.
+        - cbn in Hg. inversion Hg; subst. cbn in Hev. inversion Hev; subst. exists mv, ls. rewrite Nat.add_0_r.
+          split; [constructor | split; [assumption | split; [assumption | apply grows_refl]]].
+        - cbn [terms_go] in Hg. destruct (compile_term pool shapes isfun fnum sc0 t) as [[ct sc1]|] eqn:Hct; [|discriminate].
+          destruct (terms_go r sc1) as [[cr sc2]|] eqn:Hgr; [|discriminate]. inversion Hg; subst c0 sc0'. clear Hg.
+          cbn [terms_with] in Hev. destruct (eval_term tf cf imf ctx t e v) as [[x e1] w1| | |] eqn:Het; try discriminate.
+          cbn [bind fst snd] in Hev.
+          destruct (terms_with (eval_term tf cf imf ctx) r e1 x) as [[y e2] w2| | |] eqn:Her2; try discriminate.
+          cbn in Hev. inversion Hev; subst y e2. clear Hev.
           destruct (code_at_app _ _ _ _ Hat) as [Hat1 Hat2].
-          destruct (Hgo ts Hts sc ct sc1 Hg e v y e1 w1 pc stk ls mv L Hts' Hat1 Her Hv HL) as (my & ls1 & Hst1 & Hvy & Her1).
-          exists mok, (ls1 ++ [my]). split; [|split].
-          * eapply star_trans; [exact Hst1|]. rewrite app_length, Nat.add_assoc, app_assoc. apply binder_exec. exact Hat2.
-          * apply vrel_ok.
-          * constructor; try assumption. intros ->. cbn in Hx. discriminate.
-        + inversion Hc; subst c sc'. clear Hc.
-          intros e v v' e' w pc stk ls mv L Hev Hat Her Hv HL. rewrite eval_chain_none in Hev.
-          exact (Hgo ts Hts sc ct sc1 Hg e v v' e' w pc stk ls mv L Hev Hat Her Hv HL). }
-    tauto.
+          destruct (Ht ctx sc0 ct sc1 Hct e v x e1 w1 pc stk ls mv L Het Hat1 Her Hv HL) as (mx & ls1 & Hst1 & Hvx & Her1 & Hg1).
+          destruct (IH sc1 cr sc2 Hgr e1 x v' e' w2 (pc + length ct)%nat stk ls1 mx L Her2 Hat2 Her1 Hvx HL) as (my & ls2 & Hst2 & Hvy & Her2' & Hg2).
+          exists my, ls2. split; [|split; [assumption | split; [assumption | eapply grows_trans; eassumption]]]. rewrite app_length, Nat.add_assoc.
+          eapply star_trans; eassumption. }
+      destruct (terms_go ts sc) as [[ct sc1]|] eqn:Hg; [|discriminate].
+      destruct mp as [p|].
+      + destruct p; try discriminate. destruct (x =? a_star) eqn:Hx; [discriminate|]. destruct (isfun x) eqn:Hfx; [discriminate|].
+        cbn [orb] in Hc. inversion Hc; subst c sc'. clear Hc.
+        intros e v v' e' w pc stk ls mv L Hev Hat Her Hv HL. rewrite eval_chain_some in Hev.
+        destruct (terms_with (eval_term tf cf imf ctx) ts e v) as [[y e1] w1| | |] eqn:Hts'; try discriminate.
+        cbn [bind fst snd] in Hev. rewrite do_match_bare in Hev. cbn in Hev. inversion Hev; subst v' e'. clear Hev.
+        destruct (code_at_app _ _ _ _ Hat) as [Hat1 Hat2].
+        destruct (Hgo ts Hts sc ct sc1 Hg e v y e1 w1 pc stk ls mv L Hts' Hat1 Her Hv HL) as (my & ls1 & Hst1 & Hvy & Her1 & Hg1).
+        exists mok, (ls1 ++ [my]). split; [|split; [|split]].
+        * eapply star_trans; [exact Hst1|]. rewrite app_length, Nat.add_assoc, app_assoc. apply binder_exec. exact Hat2.
+        * apply vrel_ok.
+        * apply erel_push; [assumption | assumption | intros ->; cbn in Hx; discriminate | exact Hfx].
+        * apply grows_snoc. exact Hg1.
+      + inversion Hc; subst c sc'. clear Hc.
+        intros e v v' e' w pc stk ls mv L Hev Hat Her Hv HL. rewrite eval_chain_none in Hev.
+        exact (Hgo ts Hts sc ct sc1 Hg e v v' e' w pc stk ls mv L Hev Hat Her Hv HL).
+    - (* Sequence *)
+      intros cs Hcs ctx. cbn [seq_chains].
+      induction Hcs as [|chn r Hchn Hr IH]; intros sc c sc' Hc; [discriminate|].
+      destruct r as [|c2 r'].
+      + cbn [seq_go] in Hc. intros e v v' e' w pc stk ls mv L Hev Hat Her Hv HL. rewrite eval_sequence_eq in Hev. cbn [seq_with] in Hev.
+        destruct (eval_chain tf cf imf ctx chn e v) as [[x e1] w1| | |] eqn:Hch; try discriminate. cbn in Hev. inversion Hev; subst v' e'.
+        destruct (Hchn ctx sc c sc' Hc e v x e1 w1 pc stk ls mv L Hch Hat Her Hv HL) as (mx & ls1 & Hst & Hvx & Her1 & Hg1).
+        destruct compile_extends as [_ Hext]. destruct (Hext _ _ _ _ Hc) as [s1 ->].
+        exists mx, ls1, (sc ++ s1). repeat split; try assumption. exists s1, []. rewrite app_nil_r. auto.
+      + rewrite seq_go_cons2 in Hc. destruct (ends_in_nil_literal chn); [discriminate|].
+        destruct (compile_chain pool shapes isfun fnum sc chn) as [[cc sc1]|] eqn:Hcc; [|discriminate].
+        destruct (seq_go (c2 :: r') sc1) as [[cr sc2]|] eqn:Hcr; [|discriminate].
+        inversion Hc; subst c sc'. clear Hc.
+        intros e v v' e' w pc stk ls mv L Hev Hat Her Hv HL. rewrite eval_sequence_eq, seq_with_cons2 in Hev.
+        destruct (eval_chain tf cf imf ctx chn e v) as [[x e1] w1| | |] eqn:Hch; try discriminate. cbn [bind fst snd] in Hev.
+        destruct (code_at_app _ _ _ _ Hat) as [Hat1 Hat2].
+        destruct (Hchn ctx sc cc sc1 Hcc e v x e1 w1 pc stk ls mv L Hch Hat1 Her Hv HL) as (mx & ls1 & Hst1 & Hvx & Her1 & Hg1).
+        destruct compile_extends as [_ Hext]. destruct (Hext _ _ _ _ Hcc) as [s1 Hs1].
+        destruct (seq_go_extends _ _ _ _ Hcr) as [s2 Hs2].
+        pose proof (code_at_bound _ _ Hat) as Hbound. rewrite !app_length in Hbound. cbn [length] in Hbound.
+        destruct (code_at_head _ _ _ _ Hat2) as [Hd Hat3]. destruct (code_at_head _ _ _ _ Hat3) as [Hn Hat4].
+        destruct (code_at_head _ _ _ _ Hat4) as [Hj Hat5].
+        assert (Hprefix : star (st pc (mv :: stk) (L ++ ls))
+                               (st (S (S (pc + length cc))) ((if mis_nil mx then mok else mnil) :: mx :: stk) (L ++ ls1))).
+        { eapply star_trans; [exact Hst1|]. eapply star_step; [apply step_dup; exact Hd|].
+          eapply star_step; [apply step_not; exact Hn|]. constructor. }
+        rewrite (vrel_is_nil _ _ Hvx) in Hprefix.
+        destruct (is_nil x) eqn:Hnil.
+        * cbn in Hev. inversion Hev; subst v' e'. apply is_nil_true in Hnil. subst x.
+          exists mx, ls1, sc1. split; [|split; [assumption | split; [assumption | split; [assumption|]]]].
+          -- eapply star_trans; [exact Hprefix|]. eapply star_step.
+             { apply step_jumpif_take; [exact Hj | reflexivity | lia]. }
+             rewrite !app_length. cbn [length].
+             replace (Z.to_nat (Z.of_nat (S (S (pc + length cc))) + Z.of_nat (length cr) + 1)) with (pc + (length cc + S (S (S (length cr)))))%nat by lia.
+             constructor.
+          -- exists s1, s2. subst. auto.
+        * destruct (seq_with (eval_chain tf cf imf ctx) (c2 :: r') e1 x) as [[y e2] w2| | |] eqn:Hr2; try discriminate.
+          cbn in Hev. inversion Hev; subst y e2. clear Hev.
+          rewrite <- eval_sequence_eq in Hr2.
+          destruct (IH sc1 cr sc2 Hcr e1 x v' e' w2 (S (S (S (pc + length cc)))) stk ls1 mx L Hr2 Hat5 Her1 Hvx HL)
+            as (my & ls2 & sc'' & Hst2 & Hvy & Her2 & Hg2 & (t1 & t2 & Ht1 & Ht2)).
+          exists my, ls2, sc''. split; [|split; [assumption | split; [assumption | split; [eapply grows_trans; eassumption|]]]].
+          -- eapply star_trans; [exact Hprefix|]. eapply star_step.
+             { eapply step_jumpif_fall; [exact Hj | reflexivity]. }
+             rewrite !app_length. cbn [length].
+             replace (pc + (length cc + S (S (S (length cr)))))%nat with (S (S (S (pc + length cc))) + length cr)%nat by lia.
+             exact Hst2.
+          -- exists (s1 ++ t1), t2. split; [rewrite Ht1, Hs1, app_assoc; reflexivity | exact Ht2].
+    - (* Branch *) intros cd k Hc Hk. split; [exact Hc | exact Hk].
+    - (* Expression: the branches of a block *)
+      intros bs Hbs ctx b scb.
+      induction Hbs as [|[[cs] k] r [Hcd Hk] Hr IH]; intros cb Hb; [discriminate|].
+      cbn [br_go] in Hb. destruct (seq_go cs scb) as [[cc sc1]|] eqn:Hcc; [|discriminate].
+      fold (reset_opt b sc1) in Hb.
+      pose proof (Hcd ctx scb cc sc1 Hcc) as Hsimc. cbn [seq_chains] in *.
+      intros e v res w pc stk lsb mv L Hev Hat Her Hv HL Hlb Hnth. rewrite eval_expr_cons in Hev.
+      destruct (eval_sequence tf cf imf ctx (Sequence cs) e v) as [[x e1] w1| | |] eqn:Hcev; try discriminate.
+      cbn [bind fst snd] in Hev.
+      assert (Hload : nth_error (L ++ lsb) (base + b) = Some mv).
+      { rewrite nth_error_app2 by lia. rewrite HL, Nat.add_comm, Nat.add_sub. exact Hnth. }
+      destruct k as [[ks]|].
+      + (* condition => consequence *)
+        destruct (Nat.ltb (S b) (length sc1)) eqn:Hbound; [discriminate|].
+        destruct (seq_go ks scb) as [[ck sc2]|] eqn:Hck; [|discriminate].
+        fold (reset_opt b sc2) in Hb. cbn [Popt] in Hk. pose proof (Hk ctx scb ck sc2 Hck) as Hsimk. cbn [seq_chains] in Hsimk.
+        assert (Hr0 : reset_opt b sc1 = []) by (unfold reset_opt; rewrite Hbound; reflexivity).
+        remember (ck ++ reset_opt b sc2) as kb eqn:Hkb.
+        (* common prefix: the condition, dup, not *)
+        assert (Hpre : forall post, code_at C pc (cc ++ IDuplicate :: INot :: post) ->
+                  exists mx, star (st pc (mv :: stk) (L ++ lsb))
+                                  (st (S (S (pc + length cc))) ((if is_nil x then mok else mnil) :: mx :: stk) (L ++ lsb)) /\
+                             vrel x mx /\ erel scb e1 lsb).
+        { intros post Hat0.
+          assert (Hat0' : code_at C pc (cc ++ reset_opt b sc1 ++ IDuplicate :: INot :: post)) by (rewrite Hr0; exact Hat0).
+          destruct (seq_reset_exec _ _ _ _ b Hsimc e v x e1 w1 pc stk lsb mv L _ Hcev Hat0' Her Hv HL Hlb) as (mx & Hst & Hvx & Her1).
+          rewrite Hr0, app_nil_r in Hst. destruct (code_at_app _ _ _ _ Hat0) as [_ A2].
+          destruct (code_at_head _ _ _ _ A2) as [Hd A3]. destruct (code_at_head _ _ _ _ A3) as [Hn _].
+          exists mx. split; [|split; [assumption | apply Her1; exact Hbound]].
+          eapply star_trans; [exact Hst|]. eapply star_step; [apply step_dup; exact Hd|].
+          eapply star_step; [apply step_not; exact Hn|]. rewrite (vrel_is_nil _ _ Hvx). constructor. }
+        destruct r as [|b2 r2].
+        * (* last branch *)
+          inversion Hb; subst cb. clear Hb.
+          pose proof (code_at_bound _ _ Hat) as Hbound2. rewrite !app_length in Hbound2. cbn [length] in Hbound2.
+          destruct (Hpre _ Hat) as (mx & Hst0 & Hvx & Her1).
+          destruct (code_at_app _ _ _ _ Hat) as [_ A2]. destruct (code_at_head _ _ _ _ A2) as [_ A3].
+          destruct (code_at_head _ _ _ _ A3) as [_ A4]. destruct (code_at_head _ _ _ _ A4) as [Hj A5].
+          destruct (code_at_head _ _ _ _ A5) as [Hp A6]. destruct (code_at_head _ _ _ _ A6) as [Hl A7].
+          destruct (is_nil x) eqn:Hnil.
+          -- cbn in Hev. inversion Hev; subst res. apply is_nil_true in Hnil. subst x.
+             exists mx, lsb. split; [|split; [assumption | apply grows_refl]].
+             eapply star_trans; [exact Hst0|]. eapply star_step. { apply step_jumpif_take; [exact Hj | reflexivity | lia]. }
+             apply star_refl_pc. rewrite !app_length. cbn [length]. rewrite ?app_length. cbn [length]. lia.
+          -- destruct (eval_sequence tf cf imf ctx (Sequence ks) e1 v) as [[y e2] w2| | |] eqn:Hkev; try discriminate.
+             cbn in Hev. inversion Hev; subst res. clear Hev.
+             assert (A7' : code_at C (S (S (S (S (S (pc + length cc)))))) (ck ++ reset_opt b sc2 ++ [])) by (rewrite app_nil_r, <- Hkb; exact A7).
+             destruct (seq_reset_exec _ _ _ _ b Hsimk e1 v y e2 w2 _ stk lsb mv L _ Hkev A7' Her1 Hv HL Hlb) as (my & Hst2 & Hvy & _).
+             rewrite <- Hkb in Hst2.
+             exists my, lsb. split; [|split; [assumption | apply grows_refl]].
+             eapply star_trans; [exact Hst0|]. eapply star_step. { eapply step_jumpif_fall; [exact Hj | reflexivity]. }
+             eapply star_step. { apply step_pop; exact Hp. }
+             eapply star_step. { apply (step_load _ b mv); [exact Hl | exact Hload]. }
+             rewrite !app_length. cbn [length].
+             replace (pc + (length cc + S (S (S (S (S (length kb)))))))%nat with (S (S (S (S (S (pc + length cc))))) + length kb)%nat by lia.
+             exact Hst2.
+        * (* more branches follow *)
+          destruct (br_go b scb (b2 :: r2)) as [cr|] eqn:Hcr; [|discriminate]. inversion Hb; subst cb. clear Hb.
+          pose proof (code_at_bound _ _ Hat) as Hbound2. rewrite !app_length in Hbound2. cbn [length] in Hbound2. rewrite !app_length in Hbound2. cbn [length] in Hbound2.
+          destruct (Hpre _ Hat) as (mx & Hst0 & Hvx & Her1).
+          destruct (code_at_app _ _ _ _ Hat) as [_ A2]. destruct (code_at_head _ _ _ _ A2) as [_ A3].
+          destruct (code_at_head _ _ _ _ A3) as [_ A4]. destruct (code_at_head _ _ _ _ A4) as [Hj A5].
+          destruct (code_at_head _ _ _ _ A5) as [Hp A6]. destruct (code_at_head _ _ _ _ A6) as [Hl A7].
+          destruct (code_at_app _ _ _ _ A7) as [A7k A8]. destruct (code_at_head _ _ _ _ A8) as [Hjmp A9].
+          destruct (code_at_head _ _ _ _ A9) as [Hp2 A10]. destruct (code_at_head _ _ _ _ A10) as [Hl2 A11].
+          destruct (is_nil x) eqn:Hnil.
+          -- (* fall through to the next branch *)
+             destruct (eval_expr tf cf imf ctx (Expression (b2 :: r2)) e v) as [r' w'| | |] eqn:Hrest; try discriminate.
+             cbn in Hev. inversion Hev; subst r'. clear Hev.
+             destruct (IH cr eq_refl e v res w' (S (S (S (S (S (S (S (S (pc + length cc)))))) + length kb))) stk lsb mv L Hrest A11 Her Hv HL Hlb Hnth)
+               as (mr & ls' & Hst3 & Hvr & Hg3).
+             exists mr, ls'. split; [|split; assumption].
+             eapply star_trans; [exact Hst0|]. eapply star_step. { apply step_jumpif_take; [exact Hj | reflexivity | lia]. }
+             match goal with |- star (st ?p _ _) _ => replace p with (S (S (S (S (S (S (pc + length cc))))) + length kb))%nat by lia end.
+             eapply star_step. { apply step_pop; exact Hp2. }
+             eapply star_step. { apply (step_load _ b mv); [exact Hl2 | exact Hload]. }
+             rewrite !app_length. cbn [length]. rewrite !app_length. cbn [length].
+             replace (pc + (length cc + S (S (S (S (S (length kb + S (S (S (length cr))))))))))%nat
+               with (S (S (S (S (S (S (S (S (pc + length cc)))))) + length kb)) + length cr)%nat by lia.
+             exact Hst3.
+          -- (* commit: the consequence, then jump to the end *)
+             destruct (eval_sequence tf cf imf ctx (Sequence ks) e1 v) as [[y e2] w2| | |] eqn:Hkev; try discriminate.
+             cbn in Hev. inversion Hev; subst res. clear Hev.
+             assert (A7' : code_at C (S (S (S (S (S (pc + length cc)))))) (ck ++ reset_opt b sc2 ++ [])) by (rewrite app_nil_r, <- Hkb; exact A7k).
+             destruct (seq_reset_exec _ _ _ _ b Hsimk e1 v y e2 w2 _ stk lsb mv L _ Hkev A7' Her1 Hv HL Hlb) as (my & Hst2 & Hvy & _).
+             rewrite <- Hkb in Hst2.
+             exists my, lsb. split; [|split; [assumption | apply grows_refl]].
+             eapply star_trans; [exact Hst0|]. eapply star_step. { eapply step_jumpif_fall; [exact Hj | reflexivity]. }
+             eapply star_step. { apply step_pop; exact Hp. }
+             eapply star_step. { apply (step_load _ b mv); [exact Hl | exact Hload]. }
+             eapply star_trans; [exact Hst2|].
+             eapply star_step. { apply step_jump; [exact Hjmp | lia]. }
+             apply star_refl_pc. rewrite !app_length. cbn [length]. rewrite ?app_length. cbn [length]. lia.
+      + (* a branch without consequence *)
+        set (body := cc ++ reset_opt b sc1) in *.
+        destruct r as [|b2 r2].
+        * inversion Hb; subst cb. clear Hb.
+          assert (Hat' : code_at C pc (cc ++ reset_opt b sc1 ++ [])) by (rewrite app_nil_r; exact Hat).
+          destruct (seq_reset_exec _ _ _ _ b Hsimc e v x e1 w1 pc stk lsb mv L _ Hcev Hat' Her Hv HL Hlb) as (mx & Hst & Hvx & _).
+          exists mx, lsb. split; [exact Hst | split; [|apply grows_refl]].
+          destruct (is_nil x) eqn:Hnil; cbn in Hev; inversion Hev; subst res; [|assumption].
+          apply is_nil_true in Hnil. subst x. exact Hvx.
+        * destruct (br_go b scb (b2 :: r2)) as [cr|] eqn:Hcr; [|discriminate]. inversion Hb; subst cb. clear Hb.
+          pose proof (code_at_bound _ _ Hat) as Hbound2. rewrite !app_length in Hbound2. cbn [length] in Hbound2.
+          assert (Hat' : code_at C pc (cc ++ reset_opt b sc1 ++ [IDuplicate; IJumpIf (Z.of_nat (2 + length cr)); IPop; ILoad b] ++ cr)).
+          { unfold body in Hat. rewrite <- app_assoc in Hat. exact Hat. }
+          destruct (seq_reset_exec _ _ _ _ b Hsimc e v x e1 w1 pc stk lsb mv L _ Hcev Hat' Her Hv HL Hlb) as (mx & Hst & Hvx & _).
+          fold body in Hst.
+          destruct (code_at_app _ _ _ _ Hat) as [_ A2]. destruct (code_at_head _ _ _ _ A2) as [Hd A3].
+          destruct (code_at_head _ _ _ _ A3) as [Hj A4]. destruct (code_at_head _ _ _ _ A4) as [Hp A5].
+          destruct (code_at_head _ _ _ _ A5) as [Hl A6].
+          destruct (is_nil x) eqn:Hnil.
+          -- destruct (eval_expr tf cf imf ctx (Expression (b2 :: r2)) e v) as [r' w'| | |] eqn:Hrest; try discriminate.
+             cbn in Hev. inversion Hev; subst r'. clear Hev.
+             destruct (IH cr eq_refl e v res w' (S (S (S (S (pc + length body))))) stk lsb mv L Hrest A6 Her Hv HL Hlb Hnth)
+               as (mr & ls' & Hst3 & Hvr & Hg3).
+             exists mr, ls'. split; [|split; assumption].
+             eapply star_trans; [exact Hst|]. eapply star_step; [apply step_dup; exact Hd|].
+             eapply star_step. { eapply step_jumpif_fall; [exact Hj|]. rewrite (vrel_is_nil _ _ Hvx). exact Hnil. }
+             eapply star_step. { apply step_pop; exact Hp. }
+             eapply star_step. { apply (step_load _ b mv); [exact Hl | exact Hload]. }
+             rewrite !app_length. cbn [length].
+             replace (pc + (length body + S (S (S (S (length cr))))))%nat with (S (S (S (S (pc + length body)))) + length cr)%nat by lia.
+             exact Hst3.
+          -- cbn in Hev. inversion Hev; subst res. clear Hev.
+             exists mx, lsb. split; [|split; [assumption | apply grows_refl]].
+             eapply star_trans; [exact Hst|]. eapply star_step; [apply step_dup; exact Hd|].
+             eapply star_step. { apply step_jumpif_take; [exact Hj | rewrite (vrel_is_nil _ _ Hvx); exact Hnil | lia]. }
+             apply star_refl_pc. rewrite !app_length. cbn [length]. rewrite ?app_length. cbn [length]. lia.
   Qed.
 
-  (* sequences: after a short-circuit the later binders do not exist, so the final scope is only
-     known to be SOME scope of the locals *)
-  Definition SIMseq (ev : env -> value -> res (value * env)) (c : list instr) (sc : scope) : Prop :=
-    forall e v v' e' w pc stk ls mv L,
-      ev e v = Ret (v', e') w -> code_at C pc c -> erel sc e ls -> vrel v mv -> length L = base ->
-      exists mv' ls' sc'',
-        star (st pc (mv :: stk) (L ++ ls)) (st (pc + length c) (mv' :: stk) (L ++ ls')) /\
-        vrel v' mv' /\ erel sc'' e' ls'.
+  (* ---------------------------------------------------------------------------------------
+     a compiled term never makes a tail call (the mirror refuses `^`, `^f`, `^~`), provided the
+     evaluator's call does not return one *)
+  Hypothesis Hcf_nt : forall f a acc g b w, cf f a acc <> TailC g b w.
 
-  Lemma compile_seq_cons2 : forall sc c1 c2 r,
-    compile_seq pool shapes sc (c1 :: c2 :: r) =
-    if ends_in_nil_literal c1 then None else
-    match compile_chain pool shapes sc c1 with
-    | Some (cc, sc1) =>
-        match compile_seq pool shapes sc1 (c2 :: r) with
-        | Some (cr, sc2) => Some (cc ++ [IDuplicate; INot; IJumpIf (Z.of_nat (length cr))] ++ cr, sc2)
-        | None => None
-        end
-    | None => None
-    end.
-  Proof. reflexivity. Qed.
+  Definition compilable_t (t : term) : Prop := exists sc c sc', compile_term pool shapes isfun fnum sc t = Some (c, sc').
+  Definition compilable_c (ch : chain) : Prop := exists sc c sc', compile_chain pool shapes isfun fnum sc ch = Some (c, sc').
+  Definition compilable_s (cs : list chain) : Prop := exists sc c sc', seq_go cs sc = Some (c, sc').
+  Definition compilable_b (bs : list branch) : Prop := exists b scb cb, br_go b scb bs = Some cb.
 
-  Lemma seq_with_cons2 : forall ev c1 c2 r e v,
-    seq_with ev (c1 :: c2 :: r) e v =
-    (do x <- ev c1 e v ;; if is_nil (fst x) then Ret (vnil, snd x) ev_short else seq_with ev (c2 :: r) (snd x) (fst x)).
-  Proof. reflexivity. Qed.
-
-  Theorem compile_seq_simulates : forall ctx cs sc c sc',
-    compile_seq pool shapes sc cs = Some (c, sc') -> SIMseq (seq_with (eval_chain tf cf imf ctx) cs) c sc.
+  Lemma fields_go_compilable : forall fs i sc labels r, fields_go fs i sc labels = Some r ->
+    Forall (fun f => match f with TupleField _ (FChain ch) => compilable_c ch | _ => True end) fs.
   Proof.
-    intros ctx cs. induction cs as [|chn r IH]; intros sc c sc' Hc; [discriminate|].
-    destruct compile_simulates as [_ Hchain].
-    destruct r as [|c2 r'].
-    - cbn [compile_seq] in Hc. intros e v v' e' w pc stk ls mv L Hev Hat Her Hv HL. cbn [seq_with] in Hev.
-      destruct (eval_chain tf cf imf ctx chn e v) as [[x e1] w1| | |] eqn:Hch; try discriminate. cbn in Hev. inversion Hev; subst v' e'.
-      destruct (Hchain chn ctx sc c sc' Hc e v x e1 w1 pc stk ls mv L Hch Hat Her Hv HL) as (mx & ls1 & Hst & Hvx & Her1).
-      exists mx, ls1, sc'. auto.
-    - rewrite compile_seq_cons2 in Hc. destruct (ends_in_nil_literal chn); [discriminate|].
-      destruct (compile_chain pool shapes sc chn) as [[cc sc1]|] eqn:Hcc; [|discriminate].
-      destruct (compile_seq pool shapes sc1 (c2 :: r')) as [[cr sc2]|] eqn:Hcr; [|discriminate].
-      inversion Hc; subst c sc'. clear Hc.
-      intros e v v' e' w pc stk ls mv L Hev Hat Her Hv HL. rewrite seq_with_cons2 in Hev.
-      destruct (eval_chain tf cf imf ctx chn e v) as [[x e1] w1| | |] eqn:Hch; try discriminate. cbn [bind fst snd] in Hev.
-      destruct (code_at_app _ _ _ _ Hat) as [Hat1 Hat2].
-      destruct (Hchain chn ctx sc cc sc1 Hcc e v x e1 w1 pc stk ls mv L Hch Hat1 Her Hv HL) as (mx & ls1 & Hst1 & Hvx & Her1).
-      pose proof (code_at_bound _ _ Hat) as Hbound. rewrite !app_length in Hbound. cbn [length] in Hbound.
-      destruct (code_at_head _ _ _ _ Hat2) as [Hd Hat3]. destruct (code_at_head _ _ _ _ Hat3) as [Hn Hat4].
-      destruct (code_at_head _ _ _ _ Hat4) as [Hj Hat5].
-      assert (Hprefix : star (st pc (mv :: stk) (L ++ ls))
-                             (st (S (S (pc + length cc))) ((if mis_nil mx then mok else mnil) :: mx :: stk) (L ++ ls1))).
-      { eapply star_trans; [exact Hst1|]. eapply star_step; [apply step_dup; exact Hd|].
-        eapply star_step; [apply step_not; exact Hn|]. constructor. }
-      rewrite (vrel_is_nil _ _ Hvx) in Hprefix.
-      destruct (is_nil x) eqn:Hnil.
-      + (* short-circuit: the jump is taken *)
-        cbn in Hev. inversion Hev; subst v' e'. apply is_nil_true in Hnil. subst x.
-        exists mx, ls1, sc1. split; [|split; assumption].
-        eapply star_trans; [exact Hprefix|]. eapply star_step.
-        { apply step_jumpif_take; [exact Hj | reflexivity | lia]. }
-        rewrite !app_length. cbn [length].
-        replace (Z.to_nat (Z.of_nat (S (S (pc + length cc))) + Z.of_nat (length cr) + 1)) with (pc + (length cc + S (S (S (length cr)))))%nat by lia.
-        constructor.
-      + (* the next step starts from the value *)
-        destruct (seq_with (eval_chain tf cf imf ctx) (c2 :: r') e1 x) as [[y e2] w2| | |] eqn:Hr2; try discriminate.
-        cbn in Hev. inversion Hev; subst y e2. clear Hev.
-        destruct (IH sc1 cr sc2 Hcr e1 x v' e' w2 (S (S (S (pc + length cc)))) stk ls1 mx L Hr2 Hat5 Her1 Hvx HL) as (my & ls2 & sc'' & Hst2 & Hvy & Her2).
-        exists my, ls2, sc''. split; [|split; assumption].
-        eapply star_trans; [exact Hprefix|]. eapply star_step.
-        { eapply step_jumpif_fall; [exact Hj | reflexivity]. }
-        rewrite !app_length. cbn [length].
-        replace (pc + (length cc + S (S (S (length cr)))))%nat with (S (S (S (pc + length cc))) + length cr)%nat by lia.
-        exact Hst2.
+    induction fs as [|[l [chn|x]] r0 IH]; intros i sc labels r H; [constructor| |discriminate].
+    cbn [fields_go] in H. destruct (match l with Some _ => existsb (oatom_eqb l) labels | None => false end); [discriminate|].
+    destruct (compile_chain pool shapes isfun fnum sc chn) as [[cc sc1]|] eqn:Hc; [|discriminate].
+    destruct (fields_go r0 (S i) sc1 (labels ++ [l])) as [r1|] eqn:Hr; [|discriminate].
+    constructor; [exists sc, cc, sc1; exact Hc | eapply IH; exact Hr].
   Qed.
+  Lemma terms_go_compilable : forall ts sc r, terms_go ts sc = Some r -> Forall compilable_t ts.
+  Proof.
+    induction ts as [|t r0 IH]; intros sc r H; [constructor|]. cbn [terms_go] in H.
+    destruct (compile_term pool shapes isfun fnum sc t) as [[ct sc1]|] eqn:Hc; [|discriminate].
+    destruct (terms_go r0 sc1) as [r1|] eqn:Hr; [|discriminate].
+    constructor; [exists sc, ct, sc1; exact Hc | eapply IH; exact Hr].
+  Qed.
+  Lemma seq_go_compilable : forall cs sc r, seq_go cs sc = Some r -> Forall compilable_c cs.
+  Proof.
+    induction cs as [|chn r0 IH]; intros sc r H; [constructor|]. destruct r0 as [|c2 r'].
+    - constructor; [|constructor]. destruct r as [c sc']. exists sc, c, sc'. exact H.
+    - rewrite seq_go_cons2 in H. destruct (ends_in_nil_literal chn); [discriminate|].
+      destruct (compile_chain pool shapes isfun fnum sc chn) as [[cc sc1]|] eqn:Hc; [|discriminate].
+      destruct (seq_go (c2 :: r') sc1) as [r1|] eqn:Hr; [|discriminate].
+      constructor; [exists sc, cc, sc1; exact Hc | eapply IH; exact Hr].
+  Qed.
+  Lemma br_go_compilable : forall b scb bs cb, br_go b scb bs = Some cb ->
+    Forall (fun br => match br with Branch cd k => compilable_s (seq_chains cd) /\ Popt (fun s => compilable_s (seq_chains s)) k end) bs.
+  Proof.
+    intros b scb. induction bs as [|[[cs] k] r IH]; intros cb H; [constructor|]. cbn [br_go] in H.
+    destruct (seq_go cs scb) as [[cc sc1]|] eqn:Hc; [|discriminate].
+    assert (Hcs : compilable_s cs) by (exists scb, cc, sc1; exact Hc).
+    destruct k as [[ks]|].
+    - destruct (Nat.ltb (S b) (length sc1)); [discriminate|].
+      destruct (seq_go ks scb) as [[ck sc2]|] eqn:Hk; [|discriminate].
+      assert (Hks : compilable_s ks) by (exists scb, ck, sc2; exact Hk).
+      destruct r as [|b2 r2]; [constructor; [split; assumption | constructor]|].
+      destruct (br_go b scb (b2 :: r2)) as [cr|] eqn:Hr; [|discriminate].
+      constructor; [split; assumption | eapply IH; reflexivity].
+    - destruct r as [|b2 r2]; [constructor; [split; [assumption | exact I] | constructor]|].
+      destruct (br_go b scb (b2 :: r2)) as [cr|] eqn:Hr; [|discriminate].
+      constructor; [split; [assumption | exact I] | eapply IH; reflexivity].
+  Qed.
+
+  Definition nt {A} (r : res A) : Prop := forall g b w, r <> TailC g b w.
+  Lemma nt_bind : forall A B (a : res A) (f : A -> res B), nt a -> (forall x, nt (f x)) -> nt (bind a f).
+  Proof.
+    intros A B a f Ha Hf g b w. destruct a as [x wx|g0 b0 w0| |]; cbn [bind]; try discriminate.
+    - specialize (Hf x g b). destruct (f x); cbn; try discriminate. intros H. inversion H; subst. eapply Hf; reflexivity.
+    - exfalso. eapply Ha; reflexivity.
+  Qed.
+  Lemma nt_tick : forall A s (r : res A), nt r -> nt (tick s r).
+  Proof. intros A s r H g b w. destruct r; cbn; try discriminate. intros E. inversion E; subst. eapply H; reflexivity. Qed.
+  Lemma nt_ret : forall A (a : A), nt (ret a).
+  Proof. intros A a g b w. discriminate. Qed.
+  Lemma nt_with_env : forall A e (r : res A), nt r -> nt (with_env e r).
+  Proof. intros. unfold with_env. apply nt_bind; [assumption | intros; apply nt_ret]. Qed.
+  Lemma nt_access_all : forall path v, nt (access_all v path).
+  Proof.
+    induction path as [|p r IH]; intros v; cbn [access_all]; [apply nt_ret|]. apply nt_bind; [|intros; apply IH].
+    intros g b w. destruct v; cbn; try discriminate. destruct p; [destruct (find_field l fields) | destruct (i <? 0); [|destruct (nth_error fields (Z.to_nat i)) as [[? ?]|]]]; discriminate.
+  Qed.
+  Lemma nt_do_match : forall c e p v, nt (do_match tf c e p v).
+  Proof. intros c e p v g b w. unfold do_match. destruct (pmatch tf (c_tenv c) e [] p v); discriminate. Qed.
+
+  Lemma terms_with_nt : forall (ev : term -> env -> value -> res (value * env)) ts,
+    Forall (fun t => forall e v, nt (ev t e v)) ts -> forall e v, nt (terms_with ev ts e v).
+  Proof.
+    intros ev ts H. induction H as [|t r Ht _ IH]; intros e v; cbn [terms_with]; [apply nt_ret|].
+    apply nt_bind; [apply Ht | intros x; apply nt_tick, IH].
+  Qed.
+  Lemma seq_with_nt : forall (ev : chain -> env -> value -> res (value * env)) cs,
+    Forall (fun c => forall e v, nt (ev c e v)) cs -> forall e v, nt (seq_with ev cs e v).
+  Proof.
+    intros ev cs H. induction H as [|c r Hc _ IH]; intros e v; cbn [seq_with]; [apply nt_ret|].
+    apply nt_bind; [apply Hc|]. intros x. destruct r; [apply nt_ret|]. destruct (is_nil (fst x)); [intros g b w; discriminate | apply IH].
+  Qed.
+  Lemma fields_with_nt : forall (ev : chain -> env -> value -> res (value * env)) fs,
+    Forall (fun f => match f with TupleField _ (FChain c) => forall e v, nt (ev c e v) | _ => True end) fs ->
+    forall e v acc inh, nt (fields_with ev fs e v acc inh).
+  Proof.
+    intros ev fs H. induction H as [|[l [c|x]] r Hf _ IH]; intros e v acc inh; cbn [fields_with]; [apply nt_ret| |].
+    - apply nt_bind; [apply Hf | intros; apply IH].
+    - destruct (match x with Some x0 => lookup_var x0 e | None => Some v end) as [[| | | |]|]; try (intros g b w; discriminate). apply IH.
+  Qed.
+  Lemma branches_with_nt : forall (ev : sequence -> env -> value -> res (value * env)) bs,
+    Forall (fun br => match br with Branch c k => (forall e v, nt (ev c e v)) /\ Popt (fun s => forall e v, nt (ev s e v)) k end) bs ->
+    forall e v, nt (branches_with ev bs e v).
+  Proof.
+    intros ev bs H. induction H as [|[c k] r [Hc Hk] _ IH]; intros e v; cbn [branches_with]; [apply nt_ret|].
+    apply nt_bind; [apply Hc|]. intros x. destruct (is_nil (fst x)); [apply nt_tick, IH|].
+    destruct k as [k|]; [|apply nt_ret]. apply nt_tick, nt_bind; [apply Hk | intros; apply nt_ret].
+  Qed.
+
+  Lemma compiled_no_tail :
+    (forall t, compilable_t t -> forall ctx e v, nt (eval_term tf cf imf ctx t e v)) /\
+    (forall ch, compilable_c ch -> forall ctx e v, nt (eval_chain tf cf imf ctx ch e v)) /\
+    (forall s, compilable_s (seq_chains s) -> forall ctx e v, nt (eval_sequence tf cf imf ctx s e v)) /\
+    (forall ex, compilable_b (match ex with Expression bs => bs end) -> forall ctx e v, nt (eval_expr tf cf imf ctx ex e v)).
+  Proof.
+    apply (ast_mutind
+      (fun t => compilable_t t -> forall ctx e v, nt (eval_term tf cf imf ctx t e v))
+      (fun f => match f with TupleField _ (FChain ch) => compilable_c ch -> forall ctx e v, nt (eval_chain tf cf imf ctx ch e v) | _ => True end)
+      (fun _ => True)
+      (fun ch => compilable_c ch -> forall ctx e v, nt (eval_chain tf cf imf ctx ch e v))
+      (fun s => compilable_s (seq_chains s) -> forall ctx e v, nt (eval_sequence tf cf imf ctx s e v))
+      (fun br => match br with Branch cd k =>
+                   (compilable_s (seq_chains cd) -> forall ctx e v, nt (eval_sequence tf cf imf ctx cd e v)) /\
+                   Popt (fun s => compilable_s (seq_chains s) -> forall ctx e v, nt (eval_sequence tf cf imf ctx s e v)) k end)
+      (fun ex => compilable_b (match ex with Expression bs => bs end) -> forall ctx e v, nt (eval_expr tf cf imf ctx ex e v)));
+      try (intros; exact I).
+    - intros l _ ctx e v g b w. discriminate.
+    - intros name fs Hfs (sc & c & sc' & Hc) ctx e v. rewrite compile_term_tuple in Hc. rewrite eval_term_tuple.
+      apply nt_bind.
+      + apply fields_with_nt.
+        assert (Hcomp : Forall (fun f => match f with TupleField _ (FChain ch) => compilable_c ch | _ => True end) fs).
+        { destruct name; try discriminate; destruct (fields_go fs 0 sc []) as [r|] eqn:Hg; try discriminate; eapply fields_go_compilable; exact Hg. }
+        clear Hc. induction Hfs as [|[l [chn|x]] r Hf _ IH]; [constructor| |constructor; [exact I | inversion Hcomp; auto]].
+        inversion Hcomp; subst. constructor; [intros e0 v0; apply Hf; assumption | auto].
+      + intros [[fs' inh] e']. destruct name; [apply nt_ret | apply nt_ret | destruct inh; [apply nt_ret | intros g b w; discriminate]].
+    - intros segs _ (sc & c & sc' & Hc). discriminate.
+    - intros p _ ctx e v. rewrite eval_term_match. apply nt_do_match.
+    - intros [bs] Hb (sc & c & sc' & Hc) ctx e v. rewrite eval_term_block. apply nt_with_env. apply Hb.
+      rewrite compile_term_block in Hc. destruct (br_go (length sc) (sc ++ [None]) bs) as [cb|] eqn:Hbg; [|discriminate].
+      exists (length sc), (sc ++ [None]), cb. exact Hbg.
+    - intros tps pt rt body _ (sc & c & sc' & Hc). discriminate.
+    - intros [src path] (sc & c & sc' & Hc) ctx e v. cbn [compile_term] in Hc. cbn [Lang.eval_term].
+      destruct src as [[y| | |p| |b|[y|]|]|]; try discriminate.
+      + destruct (lookup_var y e); [|intros g b w; discriminate]. apply nt_with_env, nt_bind; [apply nt_access_all|].
+        intros x. unfold apply_value. destruct (is_callable x); [apply Hcf_nt | apply nt_ret].
+      + apply nt_with_env, nt_access_all.
+      + apply nt_with_env, nt_access_all.
+    - intros t _ (sc & c & sc' & Hc). discriminate.
+    - intros (sc & c & sc' & Hc). discriminate.
+    - intros cs _ (sc & c & sc' & Hc). discriminate.
+    - intros n (sc & c & sc' & Hc). discriminate.
+    - intros a (sc & c & sc' & Hc). discriminate.
+    - intros n chn H. exact H.
+    - intros mp ts Hts (sc & c & sc' & Hc) ctx e v.
+      destruct (fun_binding (Chain mp ts)) as [[[f pt] body]|] eqn:Hfb.
+      { unfold fun_binding in Hfb. destruct mp as [[x|l| | | | | | | | |]|]; try discriminate.
+        destruct ts as [|t [|t2 ts']]; try discriminate; destruct t; try discriminate.
+        rewrite eval_chain_some. cbn [terms_with Lang.eval_term bind ret tick fst snd]. apply nt_tick, nt_tick, nt_do_match. }
+      rewrite (compile_chain_eq _ _ _ Hfb) in Hc. destruct (terms_go ts sc) as [r|] eqn:Hg; [|discriminate].
+      pose proof (terms_go_compilable _ _ _ Hg) as Hcomp.
+      assert (Hts' : forall e0 v0, nt (terms_with (eval_term tf cf imf ctx) ts e0 v0)).
+      { apply terms_with_nt. clear Hc Hg. induction Hts as [|t r0 Ht _ IH]; [constructor|]. inversion Hcomp; subst.
+        constructor; [intros; apply Ht; assumption | auto]. }
+      destruct mp as [p|]; [rewrite eval_chain_some | rewrite eval_chain_none; apply Hts'].
+      apply nt_bind; [apply Hts' | intros; apply nt_do_match].
+    - intros cs Hcs (sc & c & sc' & Hc) ctx e v. cbn [seq_chains] in Hc. rewrite eval_sequence_eq. apply seq_with_nt.
+      pose proof (seq_go_compilable _ _ _ Hc) as Hcomp. clear Hc.
+      induction Hcs as [|chn r Hch _ IH]; [constructor|]. inversion Hcomp; subst. constructor; [intros; apply Hch; assumption | auto].
+    - intros cd k Hc Hk. split; [exact Hc | exact Hk].
+    - intros bs Hbs (b & scb & cb & Hb) ctx e v. rewrite eval_expr_eq. apply branches_with_nt.
+      pose proof (br_go_compilable _ _ _ _ Hb) as Hcomp. clear Hb.
+      induction Hbs as [|[cd k] r [Hc Hk] _ IH]; [constructor|]. inversion Hcomp as [|? ? [Hcc Hkk] Hrest]; subst.
+      constructor; [|auto]. split; [intros; apply Hc; assumption|]. destruct k; cbn in *; [intros; apply Hk; assumption | exact I].
+  Qed.
+
+  Lemma step_call : forall pc k fd ma stk locs,
+    nth_error C pc = Some ICall -> nth_error (p_funcs P) k = Some fd ->
+    step P (st pc (MFun k [] :: ma :: stk) locs) x0 =
+    Next (mk_state (ma :: stk) (locs ++ []) (mk_frame k (length locs) 0 0 :: mk_frame fn base caps pc :: rest) pers).
+  Proof. intros pc k fd ma stk locs H Hk. stepper H. cbn [Quiver.vm.Vm.stack]. rewrite Hk. reflexivity. Qed.
+
+  Corollary compile_simulates :
+    (forall t ctx sc c sc', compile_term pool shapes isfun fnum sc t = Some (c, sc') -> SIM (eval_term tf cf imf ctx t) c sc sc') /\
+    (forall ch ctx sc c sc', compile_chain pool shapes isfun fnum sc ch = Some (c, sc') -> SIM (eval_chain tf cf imf ctx ch) c sc sc').
+  Proof. destruct compile_simulates_all as (Ht & Hc & _). split; assumption. Qed.
+
+  Corollary compile_seq_simulates : forall ctx cs sc c sc',
+    compile_seq pool shapes isfun fnum sc cs = Some (c, sc') -> SIMseq (seq_with (eval_chain tf cf imf ctx) cs) c sc sc'.
+  Proof.
+    intros ctx cs sc c sc' Hc. destruct compile_simulates_all as (_ & _ & Hs & _).
+    rewrite <- seq_go_eq in Hc. exact (Hs (Sequence cs) ctx sc c sc' Hc).
+  Qed.
+
+  (* a block as a term: its input goes to a fresh slot, the branches run, the slots are released *)
+  Corollary compile_block_simulates : forall bs ctx sc c sc',
+    compile_term pool shapes isfun fnum sc (Block (Expression bs)) = Some (c, sc') ->
+    SIM (eval_term tf cf imf ctx (Block (Expression bs))) c sc sc'.
+  Proof. intros. destruct compile_simulates_all as (Ht & _). apply Ht. assumption. Qed.
 End Sim.
 
 (* ------------------------------------------------------------------------------------------
@@ -633,7 +1401,7 @@ End Sim.
    with the evaluator's value on the stack, pops the frame and finishes with that value. *)
 Theorem compile_program_correct :
   forall (P : mprogram) (fn : nat) (pool : list Z) (shapes : list shape) (p : program) (code : list instr) (pers : bool),
-    compile_program pool shapes p = Some code ->
+    compile_program pool shapes isfun fnum p = Some code ->
     nth_error (p_funcs P) fn = Some (mk_func code 0) ->
     (forall z k, const_index pool z = Some k -> nth_error (p_consts P) k = Some (CInt z)) ->
     (forall sh t, shape_index shapes sh = Some t -> nth_error (p_tuples P) t = Some (length (snd sh))) ->
@@ -650,7 +1418,7 @@ Proof.
   intros P fn pool shapes [ss] code pers Hc Hfn Hpool Hshapes Hsh0 mods n v w Hev.
   destruct n as [|n]; [discriminate|]. unfold eval_program, run_program in Hev.
   unfold compile_program in Hc. destruct (collect_aliases ss) eqn:Hal; [|discriminate].
-  destruct (compile_seq pool shapes [None] (collect_chains ss)) as [[c sc']|] eqn:Hcs; [|discriminate].
+  destruct (compile_seq pool shapes isfun fnum [None] (collect_chains ss)) as [[c sc']|] eqn:Hcs; [|discriminate].
   inversion Hc; subst code. clear Hc.
   destruct (seq_with (eval_chain n (call mods n) (eval_import mods n) (mkCtx vnil None [])) (collect_chains ss) [] vnil)
     as [[v' e'] w'| | |] eqn:Hs; try discriminate.
@@ -660,7 +1428,7 @@ Proof.
   destruct (compile_seq_simulates P fn C 0 Hfn pool shapes Hpool Hshapes Hsh0 0%nat [] pers n (call mods n) (eval_import mods n)
               (mkCtx vnil None []) (collect_chains ss) [None] c sc' Hcs [] vnil v e' w' 2%nat [] [mnil] mnil []
               Hs Hat (erel_param shapes mnil) (vrel_nil P shapes Hshapes Hsh0) eq_refl)
-    as (mv & ls & sc'' & Hst & Hv & Her).
+    as (mv & ls & sc'' & Hst & Hv & Her & _ & _).
   exists mv, ls. split; [exact Hv|]. split; [|split].
   - eapply star_step with (x := x0).
     { change (Quiver.vm.Vm.init_state fn [] mnil pers) with (st fn 0 0 [] pers 0 [mnil] []).
@@ -691,12 +1459,43 @@ Example ex_slice :
   exists w, eval_program [] 3 ex_slice_prog = Ret (VTuple (Some 200) [(Some 101, VInt 2); (None, vok)]) w.
 Proof. eexists. split; [vm_compute; reflexivity|]. split; [reflexivity|]. eexists. vm_compute. reflexivity. Qed.
 
+(* non-vacuity for blocks: `5 { | =6 => 1 | =x, [x, x] }` (a literal condition with a consequence
+   that falls through, then a binder condition with the reset of its slot) compiles to 64
+   instructions, evaluates to [5, 5]; `7 { y = ~, [y] }` (single branch: store, load, reset 2, reset 1) *)
+Definition ex_block_prog : program :=
+  Program [StmtExpression (Sequence
+    [Chain None [Literal (LInteger 5);
+                 Block (Expression
+                   [Branch (Sequence [Chain None [Match (MLiteral (LInteger 6))]]) (Some (Sequence [Chain None [Literal (LInteger 1)]]));
+                    Branch (Sequence [Chain None [Match (MIdentifier 100)];
+                                      Chain None [Tuple Anonymous [TupleField None (FChain (Chain None [Access (mkAccess (Some (Identifier 100)) [])]));
+                                                                   TupleField None (FChain (Chain None [Access (mkAccess (Some (Identifier 100)) [])]))]]]) None])]])].
+Definition ex_block1_prog : program :=
+  Program [StmtExpression (Sequence
+    [Chain None [Literal (LInteger 7);
+                 Block (Expression
+                   [Branch (Sequence [Chain (Some (MIdentifier 101)) [Access (mkAccess (Some Ripple) [])];
+                                      Chain None [Tuple Anonymous [TupleField None (FChain (Chain None [Access (mkAccess (Some (Identifier 101)) [])]))]]]) None])]])].
+Example ex_blocks :
+  (exists code, compile_program [5; 6; 1] [nil_shape; ok_shape; (None, [None; None])] ex_block_prog = Some code /\
+                In (IEqual 2) code /\ In (IReset 2) code /\ In (IReset 1) code) /\
+  (exists w, eval_program [] 3 ex_block_prog = Ret (VTuple None [(None, VInt 5); (None, VInt 5)]) w /\ n_fallthrough w = 1) /\
+  (exists code, compile_program [7] [nil_shape; ok_shape; (None, [None])] ex_block1_prog = Some code /\
+                skipn (length code - 2) code = [IReset 2; IReset 1]) /\
+  (exists w, eval_program [] 3 ex_block1_prog = Ret (VTuple None [(None, VInt 7)]) w).
+Proof.
+  split; [eexists; split; [vm_compute; reflexivity | cbn; intuition]|].
+  split; [eexists; vm_compute; split; reflexivity|].
+  split; [eexists; split; [vm_compute; reflexivity | reflexivity]|].
+  eexists. vm_compute. reflexivity.
+Qed.
+
 (* ... and, composed with C02_normalize_preserves_value: what the compiler does — normalise the
    blocks, then generate code — computes the value the reference evaluator assigns to the ORIGINAL
    program (for results without function values, which is all the fragment has) *)
 Theorem normalize_then_compile_correct :
   forall (P : mprogram) (fn : nat) (pool : list Z) (shapes : list shape) (p : program) (code : list instr) (pers : bool),
-    compile_program pool shapes (normalize p) = Some code ->
+    compile_program pool shapes isfun fnum (normalize p) = Some code ->
     nth_error (p_funcs P) fn = Some (mk_func code 0) ->
     (forall z k, const_index pool z = Some k -> nth_error (p_consts P) k = Some (CInt z)) ->
     (forall sh t, shape_index shapes sh = Some t -> nth_error (p_tuples P) t = Some (length (snd sh))) ->
